@@ -236,3 +236,1950 @@ Proof.
       + eapply Hstep; eauto. }
   apply (G l [] a0); [reflexivity|exact H0].
 Qed.
+
+(** * Part 3: one branch *)
+
+Section Branch.
+  Variable invalid_child : scope -> bool -> index -> bool.
+  Variable inv_bound : N.
+  Hypothesis inv_bounded : forall s b i, invalid_child s b i = true -> i < inv_bound.
+
+  Definition valid (k : bkey) (i : N) : bool := negb (invalid_child (fst k) (snd k) i).
+
+  (** [rank k i] = number of valid child indices below [i] on branch [k]
+      (DESIGN A.5 valid_rank). *)
+  Definition rank (k : bkey) (i : N) : N :=
+    N.peano_rect (fun _ => N) 0 (fun j r => r + (if valid k j then 1 else 0)) i.
+
+  Lemma rank_0 k : rank k 0 = 0.
+  Proof. reflexivity. Qed.
+
+  Lemma rank_succ k i : rank k (N.succ i) = rank k i + (if valid k i then 1 else 0).
+  Proof. unfold rank. rewrite N.peano_rect_succ. reflexivity. Qed.
+
+  Lemma rank_add k i d : rank k i <= rank k (i + d) /\ rank k (i + d) <= rank k i + d.
+  Proof.
+    induction d as [|d IH] using N.peano_ind.
+    - rewrite N.add_0_r. lia.
+    - rewrite N.add_succ_r, rank_succ. destruct (valid k (i + d)); lia.
+  Qed.
+
+  Lemma rank_mono k i j : i <= j -> rank k i <= rank k j.
+  Proof. intros H. replace j with (i + (j - i)) by lia. apply rank_add. Qed.
+
+  Lemma rank_diff_le k i j : i <= j -> rank k j + i <= rank k i + j.
+  Proof.
+    intros H. pose proof (rank_add k i (j - i)) as [_ H2].
+    replace (i + (j - i)) with j in H2 by lia. lia.
+  Qed.
+
+  Lemma rank_lt_index k i j : rank k i < rank k j -> i < j.
+  Proof.
+    intros H. destruct (N.lt_ge_cases i j) as [|Hge]; [assumption|].
+    pose proof (rank_mono k j i Hge). lia.
+  Qed.
+
+  (** ** counting the recorded invalid children inside a range *)
+  Lemma filter_length_add (P : N -> bool) x l :
+    NoDup l -> P x = false ->
+    length (filter (fun c => P c || (c =? x)) l) =
+    (length (filter P l) + (if memN x l then 1 else 0))%nat.
+  Proof.
+    intros Hnd Hpx. induction l as [|a l IH]; simpl; [reflexivity|].
+    inversion Hnd as [|a' l' Hna Hnd']; subst.
+    specialize (IH Hnd').
+    destruct (N.eqb_spec a x) as [->|Hne].
+    - rewrite Hpx. simpl. rewrite N.eqb_refl. simpl.
+      assert (Hm : memN x l = false) by (apply memN_false; exact Hna).
+      rewrite Hm in IH. rewrite IH. lia.
+    - rewrite orb_false_r.
+      replace (x =? a) with false by (symmetry; apply N.eqb_neq; congruence). simpl.
+      destruct (P a); simpl; rewrite IH; lia.
+  Qed.
+
+  Lemma filter_ext_in' {A} (f g : A -> bool) l :
+    (forall x, In x l -> f x = g x) -> filter f l = filter g l.
+  Proof.
+    induction l as [|a l IH]; simpl; intros H; [reflexivity|].
+    rewrite (H a (or_introl eq_refl)). rewrite IH; [reflexivity|].
+    intros x Hx. apply H. right. exact Hx.
+  Qed.
+
+  (** If the recorded set agrees with [invalid_child] on [lo, hi), the number
+      of recorded entries there plus the number of valid indices there is the
+      length of the range. *)
+  Lemma count_invalid_range k (I : list N) lo :
+    NoDup I ->
+    forall hi, lo <= hi ->
+      (forall i, lo <= i -> i < hi -> (In i I <-> valid k i = false)) ->
+      N.of_nat (length (filter (fun c => (lo <=? c) && (c <? hi)) I)) + rank k hi = (hi - lo) + rank k lo.
+  Proof.
+    intros Hnd hi. induction hi as [|hi IH] using N.peano_ind; intros Hle Hag.
+    - assert (lo = 0) by lia. subst lo.
+      rewrite (filter_ext_in' _ (fun _ => false)).
+      + assert (E : forall l : list N, filter (fun _ => false) l = []) by (induction l; simpl; auto).
+        rewrite E. simpl. lia.
+      + intros x _. destruct (0 <=? x); simpl; [|reflexivity]. apply N.ltb_ge. lia.
+    - destruct (N.eq_dec lo (N.succ hi)) as [->|Hne].
+      + rewrite (filter_ext_in' _ (fun _ => false)).
+        * assert (E : forall l : list N, filter (fun _ => false) l = []) by (induction l; simpl; auto).
+          rewrite E. simpl. lia.
+        * intros x _. destruct (N.leb_spec (N.succ hi) x); simpl; [|reflexivity]. apply N.ltb_ge. lia.
+      + assert (Hle' : lo <= hi) by lia.
+        specialize (IH Hle').
+        assert (IH' : N.of_nat (length (filter (fun c => (lo <=? c) && (c <? hi)) I)) + rank k hi =
+                      hi - lo + rank k lo).
+        { apply IH. intros i H1 H2. apply Hag; lia. }
+        rewrite (filter_ext_in' _ (fun c => ((lo <=? c) && (c <? hi)) || (c =? hi))).
+        * rewrite filter_length_add; [|exact Hnd|].
+          -- rewrite rank_succ.
+             pose proof (Hag hi ltac:(lia) ltac:(lia)) as Hhi.
+             destruct (memN hi I) eqn:Hm.
+             ++ apply memN_In in Hm. apply Hhi in Hm. rewrite Hm. lia.
+             ++ apply memN_false in Hm.
+                destruct (valid k hi) eqn:Hv; [lia|]. exfalso. apply Hm. apply Hhi. reflexivity.
+          -- rewrite N.ltb_irrefl. apply andb_false_r.
+        * intros x _. destruct (N.eqb_spec x hi) as [->|Hx].
+          -- rewrite orb_true_r. apply andb_true_iff. split; [apply N.leb_le; lia|apply N.ltb_lt; lia].
+          -- rewrite orb_false_r. f_equal.
+             destruct (N.ltb_spec x (N.succ hi)), (N.ltb_spec x hi); try reflexivity; lia.
+  Qed.
+
+  (** ** the derivation loop of expandScopeHorizons *)
+  Lemma derive_loop_spec k : forall fuel idx count window st,
+    count <= window ->
+    (N.to_nat (window - count) + N.to_nat (inv_bound - idx) < fuel)%nat ->
+    let st' := derive_loop invalid_child fuel k idx count window st in
+    exists idx', idx <= idx' /\
+      rank k idx' = rank k idx + (window - count) /\
+      b_horizon st' + (window - count) = b_horizon st + (idx' - idx) /\
+      b_next st' = b_next st /\ b_window st' = b_window st /\
+      (forall i, In i (b_addrs st') <-> In i (b_addrs st) \/ (idx <= i /\ i < idx' /\ valid k i = true)) /\
+      (forall i, In i (b_invalid st') <-> In i (b_invalid st) \/ (idx <= i /\ i < idx' /\ valid k i = false)) /\
+      (NoDup (b_invalid st) -> NoDup (b_invalid st')).
+  Proof.
+    induction fuel as [|f IH]; intros idx count window st Hcw Hfuel; [lia|].
+    simpl. destruct (N.ltb_spec count window) as [Hlt|Hge].
+    - destruct (invalid_child (fst k) (snd k) idx) eqn:Hinv.
+      + pose proof (inv_bounded _ _ _ Hinv) as Hb.
+        destruct (IH (idx + 1) count window (mark_invalid_child idx st) Hcw ltac:(lia))
+          as (idx' & H1 & H2 & H3 & H4 & H5 & H6 & H7 & H8).
+        exists idx'. repeat split; try (simpl in *; lia).
+        * rewrite H2. replace (idx + 1) with (N.succ idx) by lia. rewrite rank_succ.
+          unfold valid. rewrite Hinv. simpl. lia.
+        * simpl in H6. intros Hi. apply H6 in Hi. destruct Hi as [Hi|Hi]; [left; exact Hi|right; lia].
+        * simpl in H6. intros [Hi|Hi]; apply H6; [left; exact Hi|].
+          right. destruct (N.eq_dec i idx) as [->|Hne].
+          -- unfold valid in Hi. rewrite Hinv in Hi. simpl in Hi. lia.
+          -- lia.
+        * simpl in H7. intros Hi. apply H7 in Hi. destruct Hi as [Hi|Hi].
+          -- apply insN_In in Hi. destruct Hi as [->|Hi]; [|left; exact Hi].
+             right. unfold valid. rewrite Hinv. simpl. lia.
+          -- right. lia.
+        * simpl in H7. intros [Hi|Hi]; apply H7.
+          -- left. apply insN_In. right. exact Hi.
+          -- destruct (N.eq_dec i idx) as [->|Hne].
+             ++ left. apply insN_In. left. reflexivity.
+             ++ right. lia.
+        * intros Hnd. apply H8. simpl. apply insN_NoDup. exact Hnd.
+      + destruct (IH (idx + 1) (count + 1) window (add_addr idx st) ltac:(lia) ltac:(lia))
+          as (idx' & H1 & H2 & H3 & H4 & H5 & H6 & H7 & H8).
+        exists idx'. repeat split; try (simpl in *; lia).
+        * rewrite H2. replace (idx + 1) with (N.succ idx) by lia. rewrite rank_succ.
+          unfold valid. rewrite Hinv. simpl. lia.
+        * simpl in H6. intros Hi. apply H6 in Hi. destruct Hi as [Hi|Hi].
+          -- apply insN_In in Hi. destruct Hi as [->|Hi]; [|left; exact Hi].
+             right. unfold valid. rewrite Hinv. simpl. lia.
+          -- right. lia.
+        * simpl in H6. intros [Hi|Hi]; apply H6.
+          -- left. apply insN_In. right. exact Hi.
+          -- destruct (N.eq_dec i idx) as [->|Hne].
+             ++ left. apply insN_In. left. reflexivity.
+             ++ right. lia.
+        * simpl in H7. intros Hi. apply H7 in Hi. destruct Hi as [Hi|Hi]; [left; exact Hi|right; lia].
+        * simpl in H7. intros [Hi|Hi]; apply H7; [left; exact Hi|].
+          right. destruct (N.eq_dec i idx) as [->|Hne].
+          -- unfold valid in Hi. rewrite Hinv in Hi. simpl in Hi. lia.
+          -- lia.
+        * intros Hnd. apply H8. simpl. exact Hnd.
+    - exists idx. repeat split; try lia.
+      + intros Hi. left. exact Hi.
+      + intros [Hi|Hi]; [exact Hi|lia].
+      + intros Hi. left. exact Hi.
+      + intros [Hi|Hi]; [exact Hi|lia].
+      + auto.
+  Qed.
+
+  (** ** branch invariant *)
+  Definition br_ok (k : bkey) (W : N) (st : brs) : Prop :=
+    b_window st = W /\
+    NoDup (b_invalid st) /\
+    (forall i, In i (b_addrs st) -> valid k i = true) /\
+    (forall i, i < b_horizon st -> valid k i = true -> In i (b_addrs st)) /\
+    (forall i, b_next st <= i -> (In i (b_invalid st) <-> valid k i = false /\ i < b_horizon st)).
+
+  (** the look-ahead is fully expanded: at least [window] valid indices are
+      watched at and above nextUnfound *)
+  Definition br_expanded (k : bkey) (st : brs) : Prop :=
+    b_next st <= b_horizon st /\ rank k (b_next st) + b_window st <= rank k (b_horizon st).
+
+  Lemma num_invalid_spec k W st :
+    br_ok k W st -> b_next st <= b_horizon st ->
+    num_invalid_in_horizon st + rank k (b_horizon st) = (b_horizon st - b_next st) + rank k (b_next st).
+  Proof.
+    intros (Hw & Hnd & H0 & H1 & H2) Hle. unfold num_invalid_in_horizon.
+    apply count_invalid_range; [exact Hnd|exact Hle|].
+    intros i Hi1 Hi2. rewrite (H2 i Hi1). split; [intros [? ?]; assumption|intros ?; split; assumption].
+  Qed.
+
+  Lemma num_invalid_zero st :
+    b_horizon st <= b_next st -> num_invalid_in_horizon st = 0.
+  Proof.
+    intros Hle. unfold num_invalid_in_horizon.
+    rewrite (filter_ext_in' _ (fun _ => false)).
+    - assert (E : forall l : list N, filter (fun _ => false) l = []) by (induction l; simpl; auto).
+      rewrite E. reflexivity.
+    - intros x _. destruct (N.leb_spec (b_next st) x); simpl; [|reflexivity]. apply N.ltb_ge. lia.
+  Qed.
+
+  Definition expand_branch' := expand_branch invalid_child inv_bound.
+
+  Lemma expand_branch_ok k W st :
+    br_ok k W st ->
+    let st' := expand_branch' k st in
+    br_ok k W st' /\ br_expanded k st' /\ b_next st' = b_next st /\
+    (forall i, In i (b_addrs st) -> In i (b_addrs st')).
+  Proof.
+    intros Hok. pose proof Hok as (Hw & Hnd & H0 & H1 & H2).
+    unfold expand_branch', expand_branch, extend_horizon.
+    set (ni := num_invalid_in_horizon st).
+    destruct (N.leb_spec (b_next st + b_window st + ni) (b_horizon st)) as [Hle|Hgt].
+    - (* the horizon already suffices: nothing is derived *)
+      simpl. split; [exact Hok|]. split; [|split; [reflexivity|auto]].
+      assert (Hnh : b_next st <= b_horizon st) by lia.
+      pose proof (num_invalid_spec k W st Hok Hnh) as Hc. fold ni in Hc.
+      split; [exact Hnh|]. lia.
+    - set (minv := b_next st + b_window st + ni) in *.
+      set (st1 := {| b_window := b_window st; b_horizon := minv; b_next := b_next st;
+                     b_addrs := b_addrs st; b_invalid := b_invalid st |}).
+      pose proof (derive_loop_spec k (derive_fuel inv_bound (minv - b_horizon st)) (b_horizon st) 0
+                  (minv - b_horizon st) st1 ltac:(lia) ltac:(unfold derive_fuel; lia)) as D.
+      cbv zeta in D |- *.
+      set (st' := derive_loop invalid_child (derive_fuel inv_bound (minv - b_horizon st)) k
+                    (b_horizon st) 0 (minv - b_horizon st) st1) in *.
+      destruct D as (idx' & D1 & D2 & D3 & D4 & D5 & D6 & D7 & D8).
+      subst st1. cbn [b_horizon b_next b_window b_addrs b_invalid] in D3, D4, D5, D6, D7, D8.
+      assert (Hh : b_horizon st' = idx') by lia.
+      split; [|split; [|split]].
+      + unfold br_ok. rewrite D5, Hh. split; [exact Hw|]. split; [apply D8; exact Hnd|].
+        split; [|split].
+        * intros i Hi. apply D6 in Hi. destruct Hi as [Hi|(_ & _ & Hi)]; [apply H0; exact Hi|exact Hi].
+        * intros i Hi Hv. apply D6. destruct (N.lt_ge_cases i (b_horizon st)) as [Hl|Hg].
+          -- left. apply H1; assumption.
+          -- right. repeat split; assumption.
+        * intros i Hi. rewrite D4 in Hi. rewrite D7, (H2 i Hi). split.
+          -- intros [[Hv Hl]|(Ha & Hb & Hv)]; split; try assumption. lia.
+          -- intros [Hv Hl]. destruct (N.lt_ge_cases i (b_horizon st)) as [Hl'|Hg].
+             ++ left. split; assumption.
+             ++ right. repeat split; assumption.
+      + unfold br_expanded. rewrite D4, D5, Hh.
+        destruct (N.le_gt_cases (b_next st) (b_horizon st)) as [Hnh|Hhn].
+        * pose proof (num_invalid_spec k W st Hok Hnh) as Hc. fold ni in Hc.
+          split; [lia|]. rewrite D2. unfold minv. lia.
+        * assert (Hz : ni = 0) by (apply num_invalid_zero; lia).
+          pose proof (rank_diff_le k (b_horizon st) (b_next st) ltac:(lia)) as Hr1.
+          pose proof (rank_diff_le k (b_horizon st) idx' D1) as Hr2.
+          rewrite D2 in *. unfold minv in *. rewrite Hz in *. split; lia.
+      + exact D4.
+      + intros i Hi. apply D6. left. exact Hi.
+  Qed.
+
+  (** expanding an expanded branch changes nothing *)
+  Lemma expand_branch_idem k W st :
+    br_ok k W st -> br_expanded k st -> expand_branch' k st = st.
+  Proof.
+    intros Hok [Hnh He]. unfold expand_branch', expand_branch, extend_horizon.
+    pose proof (num_invalid_spec k W st Hok Hnh) as Hc.
+    destruct (N.leb_spec (b_next st + b_window st + num_invalid_in_horizon st) (b_horizon st)) as [Hle|Hgt].
+    - reflexivity.
+    - lia.
+  Qed.
+
+  Lemma report_found_ok k W st i :
+    br_ok k W st ->
+    let st' := report_found i st in
+    br_ok k W st' /\ b_next st' = N.max (b_next st) (i + 1) /\
+    b_addrs st' = b_addrs st /\ b_horizon st' = b_horizon st.
+  Proof.
+    intros (Hw & Hnd & H0 & H1 & H2). unfold report_found.
+    destruct (N.leb_spec (b_next st) i) as [Hle|Hgt].
+    - simpl. split; [|split; [lia|split; reflexivity]].
+      unfold br_ok. simpl. split; [exact Hw|]. split; [apply NoDup_filter; exact Hnd|].
+      split; [exact H0|]. split; [exact H1|].
+      intros j Hj. rewrite filter_In. rewrite (H2 j ltac:(lia)). split.
+      + intros [H _]. exact H.
+      + intros H. split; [exact H|]. apply negb_true_iff. apply N.ltb_ge. lia.
+    - split; [exact (conj Hw (conj Hnd (conj H0 (conj H1 H2))))|]. split; [lia|split; reflexivity].
+  Qed.
+
+  Definition report_all (idxs : list N) (st : brs) : brs :=
+    fold_left (fun br i => report_found i br) idxs st.
+
+  Definition max_next (n : N) (idxs : list N) : N := fold_left (fun n i => N.max n (i + 1)) idxs n.
+
+  Lemma report_all_ok k W idxs : forall st,
+    br_ok k W st ->
+    br_ok k W (report_all idxs st) /\ b_next (report_all idxs st) = max_next (b_next st) idxs /\
+    b_addrs (report_all idxs st) = b_addrs st /\ b_horizon (report_all idxs st) = b_horizon st.
+  Proof.
+    induction idxs as [|i idxs IH]; intros st Hok; simpl.
+    - split; [exact Hok|]. repeat split; reflexivity.
+    - destruct (report_found_ok k W st i Hok) as (Hok' & Hn & Ha & Hh).
+      destruct (IH _ Hok') as (Hok'' & Hn' & Ha' & Hh').
+      unfold report_all in *. simpl. split; [exact Hok''|].
+      rewrite Hn', Ha', Hh', Hn, Ha, Hh. repeat split; reflexivity.
+  Qed.
+
+  Lemma max_next_cons n i l : max_next n (i :: l) = max_next (N.max n (i + 1)) l.
+  Proof. reflexivity. Qed.
+
+  Lemma max_next_spec idxs : forall n,
+    n <= max_next n idxs /\
+    (forall i, In i idxs -> i < max_next n idxs) /\
+    (max_next n idxs = n \/ exists i, In i idxs /\ max_next n idxs = i + 1).
+  Proof.
+    induction idxs as [|i idxs IH]; intros n.
+    - simpl. split; [lia|]. split; [intros i []|left; reflexivity].
+    - rewrite max_next_cons. destruct (IH (N.max n (i + 1))) as (H1 & H2 & H3).
+      split; [lia|]. split.
+      + intros j [->|Hj]; [lia|apply H2; exact Hj].
+      + destruct H3 as [H3|(j & Hj & H3)].
+        * destruct (N.max_spec n (i + 1)) as [[_ E]|[_ E]].
+          -- right. exists i. split; [left; reflexivity|]. rewrite H3. exact E.
+          -- left. rewrite H3. exact E.
+        * right. exists j. split; [right; exact Hj|exact H3].
+  Qed.
+
+  (** the result only depends on the set of reported indices *)
+  Lemma max_next_set n l1 l2 :
+    (forall i, In i l1 <-> In i l2) -> max_next n l1 = max_next n l2.
+  Proof.
+    intros Heq.
+    destruct (max_next_spec l1 n) as (A1 & A2 & A3), (max_next_spec l2 n) as (B1 & B2 & B3).
+    apply N.le_antisymm.
+    - destruct A3 as [->|(i & Hi & ->)]; [exact B1|]. apply Heq in Hi. apply B2 in Hi. lia.
+    - destruct B3 as [->|(i & Hi & ->)]; [exact A1|]. apply Heq in Hi. apply A2 in Hi. lia.
+  Qed.
+
+  (** ** waddrmgr extendAddresses *)
+  Lemma next_valid_spec k : forall fuel i,
+    (N.to_nat (inv_bound - i) < fuel)%nat ->
+    let r := next_valid invalid_child fuel k i in
+    i <= r /\ valid k r = true /\ (forall j, i <= j -> j < r -> valid k j = false).
+  Proof.
+    induction fuel as [|f IH]; intros i Hf; [lia|]. simpl.
+    destruct (invalid_child (fst k) (snd k) i) eqn:Hinv.
+    - pose proof (inv_bounded _ _ _ Hinv) as Hb.
+      destruct (IH (i + 1) ltac:(lia)) as (H1 & H2 & H3).
+      split; [lia|]. split; [exact H2|].
+      intros j Hj1 Hj2. destruct (N.eq_dec j i) as [->|Hne].
+      + unfold valid. rewrite Hinv. reflexivity.
+      + apply H3; lia.
+    - split; [lia|]. split; [unfold valid; rewrite Hinv; reflexivity|]. intros j; lia.
+  Qed.
+
+  Lemma extend_loop_S f k next last :
+    extend_loop invalid_child inv_bound (S f) k next last =
+    if next <=? last
+    then extend_loop invalid_child inv_bound f k
+           (next_valid invalid_child (S (N.to_nat inv_bound)) k next + 1) last
+    else next.
+  Proof. reflexivity. Qed.
+
+  Lemma extend_loop_spec k last : valid k last = true ->
+    forall fuel next, next <= last + 1 -> (N.to_nat (last + 1 - next) < fuel)%nat ->
+      extend_loop invalid_child inv_bound fuel k next last = last + 1.
+  Proof.
+    intros Hv. induction fuel as [|f IH]; intros next Hle Hf; [lia|]. rewrite extend_loop_S.
+    destruct (N.leb_spec next last) as [Hnl|Hnl]; [|lia].
+    destruct (next_valid_spec k (S (N.to_nat inv_bound)) next ltac:(lia)) as (H1 & H2 & H3).
+    set (nv := next_valid invalid_child (S (N.to_nat inv_bound)) k next) in *.
+    assert (Hnv : nv <= last).
+    { destruct (N.le_gt_cases nv last) as [|Hgt]; [assumption|].
+      rewrite (H3 last Hnl Hgt) in Hv. discriminate. }
+    apply IH; lia.
+  Qed.
+
+  (** ** Resurrect, one branch *)
+  Lemma resurrect_loop_spec k : forall n i st,
+    let st' := resurrect_loop invalid_child n k i st in
+    b_next st' = b_next st /\ b_window st' = b_window st /\
+    b_horizon st' + rank k (i + N.of_nat n) = b_horizon st + rank k i + N.of_nat n /\
+    (forall j, In j (b_addrs st') <-> In j (b_addrs st) \/ (i <= j /\ j < i + N.of_nat n /\ valid k j = true)) /\
+    (forall j, In j (b_invalid st') <-> In j (b_invalid st) \/ (i <= j /\ j < i + N.of_nat n /\ valid k j = false)) /\
+    (NoDup (b_invalid st) -> NoDup (b_invalid st')).
+  Proof.
+    induction n as [|n IH]; intros i st; simpl.
+    - rewrite N.add_0_r. repeat split; try lia; auto; intros [H|H]; auto; lia.
+    - set (st1 := if invalid_child (fst k) (snd k) i then mark_invalid_child i st else add_addr i st).
+      destruct (IH (i + 1) st1) as (H1 & H2 & H3 & H4 & H5 & H6).
+      replace (i + 1 + N.of_nat n) with (i + N.pos (Pos.of_succ_nat n)) in * by lia.
+      replace (rank k (i + 1)) with (rank k (N.succ i)) in H3 by (f_equal; lia). rewrite rank_succ in H3.
+      unfold valid at 1 in H3.
+      destruct (invalid_child (fst k) (snd k) i) eqn:Hinv; subst st1; simpl in *.
+      + repeat split; try lia.
+        * intros Hj. apply H4 in Hj. destruct Hj as [Hj|Hj]; [left; exact Hj|right; lia].
+        * intros [Hj|Hj]; apply H4; [left; exact Hj|]. right.
+          destruct (N.eq_dec j i) as [->|Hne]; [|lia].
+          unfold valid in Hj. rewrite Hinv in Hj. simpl in Hj. lia.
+        * intros Hj. apply H5 in Hj. destruct Hj as [Hj|Hj].
+          -- apply insN_In in Hj. destruct Hj as [->|Hj]; [|left; exact Hj].
+             right. unfold valid. rewrite Hinv. simpl. lia.
+          -- right. lia.
+        * intros [Hj|Hj]; apply H5.
+          -- left. apply insN_In. right. exact Hj.
+          -- destruct (N.eq_dec j i) as [->|Hne]; [left; apply insN_In; left; reflexivity|right; lia].
+        * intros Hnd. apply H6. apply insN_NoDup. exact Hnd.
+      + repeat split; try lia.
+        * intros Hj. apply H4 in Hj. destruct Hj as [Hj|Hj].
+          -- apply insN_In in Hj. destruct Hj as [->|Hj]; [|left; exact Hj].
+             right. unfold valid. rewrite Hinv. simpl. lia.
+          -- right. lia.
+        * intros [Hj|Hj]; apply H4.
+          -- left. apply insN_In. right. exact Hj.
+          -- destruct (N.eq_dec j i) as [->|Hne]; [left; apply insN_In; left; reflexivity|right; lia].
+        * intros Hj. apply H5 in Hj. destruct Hj as [Hj|Hj]; [left; exact Hj|right; lia].
+        * intros [Hj|Hj]; apply H5; [left; exact Hj|]. right.
+          destruct (N.eq_dec j i) as [->|Hne]; [|lia].
+          unfold valid in Hj. rewrite Hinv in Hj. simpl in Hj. lia.
+        * exact H6.
+  Qed.
+
+  Lemma resurrect_branch_ok k W count :
+    let st := resurrect_branch invalid_child k count (new_brs W) in
+    br_ok k W st /\ b_next st = count.
+  Proof.
+    unfold resurrect_branch.
+    destruct (resurrect_loop_spec k (N.to_nat count) 0 (new_brs W)) as (H1 & H2 & H3 & H4 & H5 & H6).
+    set (st1 := resurrect_loop invalid_child (N.to_nat count) k 0 (new_brs W)) in *.
+    simpl in H1, H2, H3, H4, H5, H6. rewrite N2Nat.id in *.
+    assert (Hh : b_horizon st1 <= count).
+    { pose proof (rank_mono k 0 count ltac:(lia)). rewrite rank_0 in *. lia. }
+    destruct (N.ltb_spec 0 count) as [Hpos|Hz].
+    - unfold report_found. rewrite H1. cbn [b_next new_brs].
+      destruct (N.leb_spec 0 (count - 1)) as [_|Hbad]; [|lia]. cbn [b_next].
+      split; [|lia]. unfold br_ok. simpl. split; [exact H2|].
+      split; [apply NoDup_filter; apply H6; constructor|]. split; [|split].
+      + intros i Hi. apply H4 in Hi. tauto.
+      + intros i Hi Hv. apply H4. right. repeat split; lia.
+      + intros i Hi. rewrite filter_In, H5. split.
+        * intros [[[]|Hj] _]. lia.
+        * intros [_ Hj]. lia.
+    - assert (count = 0) by lia. subst count.
+      split; [|exact H1]. unfold br_ok. split; [exact H2|].
+      split; [apply H6; constructor|]. split; [|split].
+      + intros i Hi. apply H4 in Hi. tauto.
+      + intros i Hi. lia.
+      + intros i Hi. rewrite H5. split.
+        * intros [[]|Hj]. lia.
+        * intros [_ Hj]. lia.
+  Qed.
+
+  (** * Part 4: the recovery state as a finite map *)
+
+  Variable scopes : list scope.
+  Hypothesis scopes_nodup : NoDup scopes.
+
+  Lemma assoc_scope_set s v l s' :
+    assoc_scope s' ((s, v) :: filter (fun p => negb (fst p =? s)) l) =
+    if s' =? s then Some v else assoc_scope s' l.
+  Proof.
+    simpl. rewrite (N.eqb_sym s s'). destruct (N.eqb_spec s' s) as [->|Hne]; [reflexivity|].
+    induction l as [|[a w] l IH]; simpl; [reflexivity|].
+    destruct (N.eqb_spec a s) as [->|Ha]; simpl.
+    - replace (s =? s') with false by (symmetry; apply N.eqb_neq; congruence). exact IH.
+    - destruct (a =? s'); [reflexivity|exact IH].
+  Qed.
+
+  Lemma state_for_scope_set s v rs s' :
+    state_for_scope s' (set_scope s v rs) = if s' =? s then v else state_for_scope s' rs.
+  Proof.
+    unfold state_for_scope, set_scope. cbn [r_scopes r_window].
+    rewrite assoc_scope_set. destruct (s' =? s); reflexivity.
+  Qed.
+
+  Lemma branch_set_branch ss b v b' :
+    branch (set_branch ss b v) b' = if Bool.eqb b' b then v else branch ss b'.
+  Proof. destruct b, b'; reflexivity. Qed.
+
+  Lemma get_branch_set_br k v rs k' :
+    get_branch k' (set_br k v rs) = if bkey_eqb k' k then v else get_branch k' rs.
+  Proof.
+    unfold get_branch, set_br, bkey_eqb. rewrite state_for_scope_set.
+    destruct (N.eqb_spec (fst k') (fst k)) as [E|Hne]; simpl; [|reflexivity].
+    rewrite branch_set_branch, E. destruct (Bool.eqb (snd k') (snd k)); reflexivity.
+  Qed.
+
+  Lemma fold_scopes_get (f : scope -> sstate -> sstate) l : NoDup l -> forall rs,
+    let rs' := fold_left (fun rs s => set_scope s (f s (state_for_scope s rs)) rs) l rs in
+    (forall s, state_for_scope s rs' = if memN s l then f s (state_for_scope s rs) else state_for_scope s rs) /\
+    r_watched rs' = r_watched rs /\ r_window rs' = r_window rs.
+  Proof.
+    induction 1 as [|a l Hna Hnd IH]; intros rs; simpl.
+    - split; [intros s; reflexivity|split; reflexivity].
+    - destruct (IH (set_scope a (f a (state_for_scope a rs)) rs)) as (H1 & H2 & H3).
+      split; [|split; [rewrite H2; reflexivity|rewrite H3; reflexivity]].
+      intros s. rewrite H1, state_for_scope_set.
+      destruct (N.eqb_spec s a) as [->|Hne].
+      + assert (Hm : memN a l = false) by (apply memN_false; exact Hna). rewrite Hm. reflexivity.
+      + reflexivity.
+  Qed.
+
+  Definition expand_all' := expand_all invalid_child inv_bound scopes.
+
+  Lemma expand_all_get rs :
+    (forall k, get_branch k (expand_all' rs) =
+               if memN (fst k) scopes then expand_branch' k (get_branch k rs) else get_branch k rs) /\
+    r_watched (expand_all' rs) = r_watched rs /\ r_window (expand_all' rs) = r_window rs.
+  Proof.
+    unfold expand_all', expand_all.
+    destruct (fold_scopes_get (expand_scope_horizons invalid_child inv_bound) scopes scopes_nodup rs)
+      as (H1 & H2 & H3).
+    split; [|split; assumption].
+    intros [s b]. unfold get_branch. simpl. rewrite H1.
+    destruct (memN s scopes); [|reflexivity].
+    destruct b; reflexivity.
+  Qed.
+
+  (** ** the persistent next indices *)
+  Lemma assoc_bkey_set k v l q :
+    assoc_bkey q ((k, v) :: filter (fun x => negb (bkey_eqb (fst x) k)) l) =
+    if bkey_eqb k q then v else assoc_bkey q l.
+  Proof.
+    simpl. destruct (bkey_eqb k q) eqn:E; [reflexivity|].
+    induction l as [|[a w] l IH]; simpl; [reflexivity|].
+    destruct (bkey_eqb a k) eqn:Ea; simpl.
+    - apply bkey_eqb_eq in Ea. subst a. rewrite E. exact IH.
+    - destruct (bkey_eqb a q); [reflexivity|exact IH].
+  Qed.
+
+  Lemma get_next_set_next k v p q :
+    get_next q (set_next k v p) = if bkey_eqb k q then v else get_next q p.
+  Proof. unfold get_next, set_next. cbn [p_next]. apply assoc_bkey_set. Qed.
+
+  Lemma get_next_mark_used x p q : get_next q (mark_used x p) = get_next q p.
+  Proof. reflexivity. Qed.
+
+  (** ** extendFoundAddresses *)
+  Lemma fold_mark_used k idxs : forall p,
+    let p' := fold_left (fun p i => mark_used (k, i) p) idxs p in
+    p_next p' = p_next p /\ p_txs p' = p_txs p /\ p_unspent p' = p_unspent p /\ p_synced p' = p_synced p /\
+    (forall x, In x (p_used p') <-> In x (p_used p) \/ (fst x = k /\ In (snd x) idxs)).
+  Proof.
+    induction idxs as [|i idxs IH]; intros p; simpl.
+    - repeat split; auto. intros [H|[_ []]]. exact H.
+    - destruct (IH (mark_used (k, i) p)) as (H1 & H2 & H3 & H4 & H5).
+      split; [rewrite H1; reflexivity|]. split; [rewrite H2; reflexivity|].
+      split; [rewrite H3; reflexivity|]. split; [rewrite H4; reflexivity|].
+      intros x. rewrite H5. simpl. rewrite ins_key_In. split.
+      + intros [[->|H]|[Hk H]]; simpl; tauto.
+      + intros [H|[Hk [E|H]]]; [tauto| |tauto].
+        left. left. destruct x; simpl in *; subst; reflexivity.
+  Qed.
+
+  Definition efb := extend_found_branch invalid_child inv_bound.
+
+  Lemma efb_frame k keys rs p :
+    let idxs := found_indices k keys in
+    let st' := efb k keys (rs, p) in
+    (forall q, get_branch q (fst st') =
+               if bkey_eqb q k then report_all idxs (get_branch k rs) else get_branch q rs) /\
+    (forall q, bkey_eqb k q = false -> get_next q (snd st') = get_next q p) /\
+    r_watched (fst st') = r_watched rs /\ r_window (fst st') = r_window rs /\
+    p_txs (snd st') = p_txs p /\ p_unspent (snd st') = p_unspent p /\ p_synced (snd st') = p_synced p /\
+    (forall x, In x (p_used (snd st')) <-> In x (p_used p) \/ (fst x = k /\ In (snd x) idxs)).
+  Proof.
+    unfold efb, extend_found_branch. cbv zeta.
+    destruct (found_indices k keys) as [|i0 idxs0] eqn:Eidx.
+    - simpl. split.
+      { intros q. destruct (bkey_eqb q k) eqn:E; [apply bkey_eqb_eq in E; subst; reflexivity|reflexivity]. }
+      repeat split; auto. intros [H|[_ []]]. exact H.
+    - set (idxs := i0 :: idxs0) in *. cbn [fst snd].
+      set (br := fold_left (fun br i => report_found i br) idxs (get_branch k rs)).
+      set (p1 := extend_addresses invalid_child inv_bound k
+                   (if 0 <? next_unfound br then next_unfound br - 1 else next_unfound br) p).
+      destruct (fold_mark_used k idxs p1) as (H1 & H2 & H3 & H4 & H5).
+      assert (Hp1 : p_used p1 = p_used p /\ p_txs p1 = p_txs p /\ p_unspent p1 = p_unspent p /\
+                    p_synced p1 = p_synced p /\
+                    (forall q, bkey_eqb k q = false -> get_next q p1 = get_next q p)).
+      { subst p1. unfold extend_addresses.
+        destruct (_ <? get_next k p); [repeat split; reflexivity|].
+        repeat split; try reflexivity. intros q Hq. rewrite get_next_set_next, Hq. reflexivity. }
+      destruct Hp1 as (U1 & U2 & U3 & U4 & U5).
+      split; [|split; [|split; [|split; [|split; [|split; [|split]]]]]].
+      + intros q. rewrite get_branch_set_br. reflexivity.
+      + intros q Hq. rewrite <- (U5 q Hq). unfold get_next. f_equal. exact H1.
+      + reflexivity.
+      + reflexivity.
+      + exact (eq_trans H2 U2).
+      + exact (eq_trans H3 U3).
+      + exact (eq_trans H4 U4).
+      + intros x. rewrite <- U1. exact (H5 x).
+  Qed.
+
+  Lemma efb_next k W keys rs p :
+    let idxs := found_indices k keys in
+    br_ok k W (get_branch k rs) ->
+    get_next k p = b_next (get_branch k rs) ->
+    (forall i, In i idxs -> In i (b_addrs (get_branch k rs))) ->
+    get_next k (snd (efb k keys (rs, p))) = b_next (report_all idxs (get_branch k rs)).
+  Proof.
+    intros idxs Hok Hn Hin. unfold efb, extend_found_branch. cbv zeta. fold idxs.
+    destruct idxs as [|i0 idxs0] eqn:Eidx.
+    - simpl. exact Hn.
+    - rewrite <- Eidx in *. cbn [fst snd].
+      fold (report_all idxs (get_branch k rs)).
+      set (br := report_all idxs (get_branch k rs)).
+      destruct (report_all_ok k W idxs _ Hok) as (Hok' & Hn' & Ha' & Hh'). fold br in Hok', Hn', Ha', Hh'.
+      destruct (max_next_spec idxs (b_next (get_branch k rs))) as (M1 & M2 & M3).
+      rewrite <- Hn' in M1, M2, M3. unfold next_unfound.
+      assert (Hpos : 0 < b_next br) by (pose proof (M2 i0 ltac:(rewrite Eidx; left; reflexivity)); lia).
+      destruct (N.ltb_spec 0 (b_next br)) as [_|Hbad]; [|lia].
+      set (p1 := extend_addresses invalid_child inv_bound k (b_next br - 1) p).
+      destruct (fold_mark_used k idxs p1) as (H1 & _).
+      transitivity (get_next k p1); [unfold get_next; f_equal; exact H1|].
+      subst p1. unfold extend_addresses. rewrite Hn.
+      destruct (N.ltb_spec (b_next br - 1) (b_next (get_branch k rs))) as [Hlt|Hge].
+      + rewrite Hn. lia.
+      + rewrite get_next_set_next, bkey_eqb_refl.
+        destruct M3 as [M3|(i & Hi & M3)]; [lia|].
+        rewrite extend_loop_spec; try lia.
+        replace (b_next br - 1) with i by lia.
+        destruct Hok as (_ & _ & H0 & _). apply H0. apply Hin. exact Hi.
+  Qed.
+
+  Definition efa := extend_found_addresses invalid_child inv_bound scopes.
+
+  Lemma efb_fold keys L : NoDup L -> forall st,
+    let st' := fold_left (fun st k => efb k keys st) L st in
+    (forall q, get_branch q (fst st') =
+               if existsb (bkey_eqb q) L then report_all (found_indices q keys) (get_branch q (fst st))
+               else get_branch q (fst st)) /\
+    (forall q, existsb (bkey_eqb q) L = false -> get_next q (snd st') = get_next q (snd st)) /\
+    (forall q W, existsb (bkey_eqb q) L = true ->
+       br_ok q W (get_branch q (fst st)) ->
+       get_next q (snd st) = b_next (get_branch q (fst st)) ->
+       (forall i, In i (found_indices q keys) -> In i (b_addrs (get_branch q (fst st)))) ->
+       get_next q (snd st') = b_next (report_all (found_indices q keys) (get_branch q (fst st)))) /\
+    r_watched (fst st') = r_watched (fst st) /\ r_window (fst st') = r_window (fst st) /\
+    p_txs (snd st') = p_txs (snd st) /\ p_unspent (snd st') = p_unspent (snd st) /\
+    p_synced (snd st') = p_synced (snd st) /\
+    (forall x, In x (p_used (snd st')) <->
+               In x (p_used (snd st)) \/ (existsb (bkey_eqb (fst x)) L = true /\ In (snd x) (found_indices (fst x) keys))).
+  Proof.
+    induction 1 as [|a L Hna Hnd IH]; intros st.
+    - simpl. repeat split; auto; try discriminate. intros [H|[H _]]; [exact H|discriminate].
+    - cbn [fold_left]. destruct st as [rs p].
+      destruct (efb_frame a keys rs p) as (F1 & F2 & F3 & F4 & F5 & F6 & F7 & F8).
+      pose proof (efb_next a) as Fn.
+      set (st1 := efb a keys (rs, p)) in *.
+      destruct (IH st1) as (I1 & I2 & I3 & I4 & I5 & I6 & I7 & I8 & I9).
+      assert (Hnotin : existsb (bkey_eqb a) L = false).
+      { destruct (existsb (bkey_eqb a) L) eqn:E; [|reflexivity].
+        apply existsb_exists in E. destruct E as (x & Hx & E). apply bkey_eqb_eq in E. subst x. contradiction. }
+      cbn [fst snd] in *.
+      split; [|split; [|split; [|split; [|split; [|split; [|split; [|split]]]]]]].
+      + intros q. rewrite I1, F1. cbn [existsb].
+        destruct (bkey_eqb q a) eqn:E.
+        * apply bkey_eqb_eq in E. subst q. rewrite Hnotin. reflexivity.
+        * simpl. reflexivity.
+      + intros q Hq. cbn [existsb] in Hq. apply orb_false_iff in Hq. destruct Hq as [Hq1 Hq2].
+        rewrite I2 by exact Hq2. apply F2.
+        destruct (bkey_eqb a q) eqn:E; [|reflexivity].
+        apply bkey_eqb_eq in E. subst q. rewrite bkey_eqb_refl in Hq1. discriminate.
+      + intros q W Hq Hok Hn Hin. cbn [existsb] in Hq.
+        destruct (bkey_eqb q a) eqn:E.
+        * apply bkey_eqb_eq in E. subst q. rewrite I2 by exact Hnotin.
+          apply (Fn W keys rs p); assumption.
+        * simpl in Hq. assert (Ea : bkey_eqb a q = false).
+          { destruct (bkey_eqb a q) eqn:E2; [|reflexivity]. apply bkey_eqb_eq in E2. subst q.
+            rewrite bkey_eqb_refl in E. discriminate. }
+          rewrite (I3 q W Hq).
+          -- rewrite F1, E. reflexivity.
+          -- rewrite F1, E. exact Hok.
+          -- rewrite F1, E, (F2 q Ea). exact Hn.
+          -- rewrite F1, E. exact Hin.
+      + rewrite I4. exact F3.
+      + rewrite I5. exact F4.
+      + rewrite I6. exact F5.
+      + rewrite I7. exact F6.
+      + rewrite I8. exact F7.
+      + intros x. rewrite I9, F8. cbn [existsb]. split.
+        * intros [[H|[Hk H]]|[Hk H]].
+          -- left. exact H.
+          -- right. subst a. rewrite bkey_eqb_refl. simpl. split; [reflexivity|exact H].
+          -- right. rewrite Hk, orb_true_r. split; [reflexivity|exact H].
+        * intros [H|[Hk H]]; [left; left; exact H|].
+          apply orb_true_iff in Hk. destruct Hk as [Hk|Hk].
+          -- apply bkey_eqb_eq in Hk. left. right. subst a. split; [reflexivity|exact H].
+          -- right. split; [exact Hk|exact H].
+  Qed.
+
+  (** * Part 5: the ledger (what the chain says, no windows involved) *)
+
+  Definition out_keys (o : txout) : list key := match o_key o with Some k => [k] | None => [] end.
+  Definition tx_keys (t : tx) : list key := flat_map out_keys (t_outs t).
+  Definition block_keys (b : block) : list key := flat_map tx_keys b.
+  (** indices paid on branch [k] in block [b] *)
+  Definition paid_on (k : bkey) (b : block) : list N := found_indices k (block_keys b).
+
+  Definition wallet_outs_from (id : N) (outs : list (N * txout)) : list (outpoint * Z) :=
+    flat_map (fun x => match o_key (snd x) with
+                       | Some _ => [((id, fst x), o_val (snd x))]
+                       | None => []
+                       end) outs.
+  (** the outputs of [t] that pay a wallet path *)
+  Definition wallet_outs (t : tx) : list (outpoint * Z) :=
+    wallet_outs_from (t_id t) (number_from 0 (t_outs t)).
+
+  Definition has_keys (t : tx) : bool := match tx_keys t with [] => false | _ => true end.
+
+  (** unspent wallet outputs after [t] *)
+  Definition ledger_tx (u : list (outpoint * Z)) (t : tx) : list (outpoint * Z) :=
+    filter (fun x => negb (mem_op (fst x) (t_ins t))) u ++ wallet_outs t.
+
+  (** [t] pays the wallet or spends one of its unspent outputs *)
+  Definition relevant (u : list (outpoint * Z)) (t : tx) : bool :=
+    has_keys t || existsb (fun o => mem_op o (map fst u)) (t_ins t).
+
+  Definition ledger_step (st : list (N * N) * list (outpoint * Z)) (x : N * tx) :=
+    ((if relevant (snd st) (snd x) then fst st ++ [(fst x, t_id (snd x))] else fst st),
+     ledger_tx (snd st) (snd x)).
+
+  (** (relevant transactions as (height, id) in chain order, unspent wallet outputs) *)
+  Definition ledger (txs : list (N * tx)) := fold_left ledger_step txs ([], []).
+
+  Definition txs_of (hb : list (N * block)) : list (N * tx) :=
+    flat_map (fun x => map (pair (fst x)) (snd x)) hb.
+  Definition created (l : list (N * tx)) : list outpoint :=
+    flat_map (fun x => map fst (wallet_outs (snd x))) l.
+  Definition inputs (l : list (N * tx)) : list outpoint := flat_map (fun x => t_ins (snd x)) l.
+  Definition ids (l : list (N * tx)) : list N := map (fun x => t_id (snd x)) l.
+
+  Lemma ledger_snoc l x : ledger (l ++ [x]) = ledger_step (ledger l) x.
+  Proof. unfold ledger. rewrite fold_left_app. reflexivity. Qed.
+
+  Lemma out_keys_numbered (outs : list txout) : forall n,
+    flat_map (fun x => out_keys (snd x)) (number_from n outs) = flat_map out_keys outs.
+  Proof.
+    induction outs as [|o outs IH]; intros n; simpl; [reflexivity|]. rewrite IH. reflexivity.
+  Qed.
+
+  Lemma wallet_outs_nil_iff id outs :
+    wallet_outs_from id outs = [] <-> flat_map (fun x => out_keys (snd x)) outs = [].
+  Proof.
+    induction outs as [|[pos o] outs IH]; simpl; [tauto|].
+    unfold out_keys at 1. destruct (o_key o); simpl; [split; discriminate|exact IH].
+  Qed.
+
+  Lemma has_keys_wallet_outs t : has_keys t = match wallet_outs t with [] => false | _ => true end.
+  Proof.
+    unfold has_keys, wallet_outs, tx_keys.
+    pose proof (wallet_outs_nil_iff (t_id t) (number_from 0 (t_outs t))) as H.
+    rewrite out_keys_numbered in H.
+    destruct (wallet_outs_from (t_id t) (number_from 0 (t_outs t))) eqn:E1,
+             (flat_map out_keys (t_outs t)) eqn:E2; try reflexivity.
+    - destruct H as [H _]. specialize (H eq_refl). discriminate.
+    - destruct H as [_ H]. specialize (H eq_refl). discriminate.
+  Qed.
+
+  (** an irrelevant transaction leaves the ledger unchanged *)
+  Lemma ledger_tx_irrelevant u t : relevant u t = false -> ledger_tx u t = u.
+  Proof.
+    unfold relevant. intros H. apply orb_false_iff in H. destruct H as [Hk Hs].
+    unfold ledger_tx. rewrite has_keys_wallet_outs in Hk.
+    destruct (wallet_outs t); [|discriminate]. rewrite app_nil_r.
+    apply filter_all_true. intros x Hx. apply negb_true_iff. apply mem_op_false. intros Hin.
+    assert (E : existsb (fun o => mem_op o (map fst u)) (t_ins t) = true).
+    { apply existsb_exists. exists (fst x). split; [exact Hin|]. apply mem_op_In. apply in_map. exact Hx. }
+    congruence.
+  Qed.
+
+  (** unspent outputs are created ones; created and never spent ones are unspent *)
+  Lemma ledger_utxo_created l : forall o, In o (map fst (snd (ledger l))) -> In o (created l).
+  Proof.
+    induction l as [|x l IH] using rev_ind; intros o Ho; [destruct Ho|].
+    rewrite ledger_snoc in Ho. unfold ledger_step, ledger_tx in Ho. cbn [snd] in Ho.
+    rewrite map_app, in_app_iff in Ho. unfold created. rewrite flat_map_app, in_app_iff.
+    destruct Ho as [Ho|Ho].
+    - left. apply IH. rewrite in_map_iff in *. destruct Ho as (y & Ey & Hy).
+      apply filter_In in Hy. exists y. split; [exact Ey|apply Hy].
+    - right. simpl. rewrite app_nil_r. exact Ho.
+  Qed.
+
+  Lemma ledger_utxo_complete l : forall o,
+    In o (created l) -> ~ In o (inputs l) -> In o (map fst (snd (ledger l))).
+  Proof.
+    induction l as [|x l IH] using rev_ind; intros o Hc Hi; [destruct Hc|].
+    rewrite ledger_snoc. unfold ledger_step, ledger_tx. cbn [snd].
+    rewrite map_app, in_app_iff.
+    unfold created in Hc. rewrite flat_map_app, in_app_iff in Hc.
+    unfold inputs in Hi. rewrite flat_map_app, in_app_iff in Hi. simpl in Hc, Hi. rewrite app_nil_r in *.
+    destruct Hc as [Hc|Hc]; [|right; exact Hc].
+    left. assert (Hu : In o (map fst (snd (ledger l)))) by (apply IH; [exact Hc|tauto]).
+    rewrite in_map_iff in *. destruct Hu as (y & Ey & Hy). exists y. split; [exact Ey|].
+    apply filter_In. split; [exact Hy|]. apply negb_true_iff. apply mem_op_false. subst o. tauto.
+  Qed.
+
+  (** * Part 6: the block filter when every paid path of the block is watched *)
+
+  Definition ftx_step (rs : rstate) (id : N) : list key * list outpoint * bool -> N * txout -> list key * list outpoint * bool :=
+    fun '(keys, ops, pays) '(pos, o) =>
+      match o_key o with
+      | Some k => if watched_key scopes rs k
+                  then (ins_key k keys, ins_op (id, pos) ops, true)
+                  else (keys, ops, pays)
+      | None => (keys, ops, pays)
+      end.
+
+  Lemma filter_tx_unfold rs acc t :
+    filter_tx scopes rs acc t =
+    let spends := existsb (fun o => mem_op o (r_watched rs) || mem_op o (f_ops acc)) (t_ins t) in
+    let r := fold_left (ftx_step rs (t_id t)) (number_from 0 (t_outs t)) (f_keys acc, f_ops acc, false) in
+    {| f_keys := fst (fst r); f_ops := snd (fst r);
+       f_txs := if spends || snd r then f_txs acc ++ [t] else f_txs acc |}.
+  Proof.
+    unfold filter_tx. cbv zeta. fold (ftx_step rs (t_id t)).
+    destruct (fold_left (ftx_step rs (t_id t)) (number_from 0 (t_outs t)) (f_keys acc, f_ops acc, false))
+      as [[keys ops] pays]. reflexivity.
+  Qed.
+
+  Lemma ftx_fold_spec rs id : forall outs keys ops pays,
+    (forall x k, In x outs -> o_key (snd x) = Some k -> watched_key scopes rs k = true) ->
+    let r := fold_left (ftx_step rs id) outs (keys, ops, pays) in
+    (forall x, In x (fst (fst r)) <-> In x keys \/ In x (flat_map (fun y => out_keys (snd y)) outs)) /\
+    (forall x, In x (snd (fst r)) <-> In x ops \/ In x (map fst (wallet_outs_from id outs))) /\
+    snd r = pays || (match wallet_outs_from id outs with [] => false | _ => true end).
+  Proof.
+    induction outs as [|[pos o] outs IH]; intros keys ops pays Hw.
+    - simpl. split; [intros x; tauto|]. split; [intros x; tauto|]. rewrite orb_false_r. reflexivity.
+    - cbn [fold_left]. cbn [flat_map snd fst].
+      unfold wallet_outs_from. cbn [flat_map snd fst]. fold (wallet_outs_from id outs).
+      destruct (o_key o) as [k|] eqn:Ek.
+      + assert (Eo : out_keys o = [k]) by (unfold out_keys; rewrite Ek; reflexivity). rewrite Eo.
+        assert (Estep : ftx_step rs id (keys, ops, pays) (pos, o) = (ins_key k keys, ins_op (id, pos) ops, true)).
+        { unfold ftx_step. rewrite Ek, (Hw (pos, o) k (or_introl eq_refl) Ek). reflexivity. }
+        rewrite Estep.
+        destruct (IH (ins_key k keys) (ins_op (id, pos) ops) true) as (H1 & H2 & H3).
+        { intros x k' Hx. apply Hw. right. exact Hx. }
+        split; [|split].
+        * intros x. rewrite H1, ins_key_In. simpl. intuition (subst; auto).
+        * intros x. rewrite H2, ins_op_In. simpl. intuition (subst; auto).
+        * rewrite H3. simpl. rewrite orb_true_r. reflexivity.
+      + assert (Eo : out_keys o = []) by (unfold out_keys; rewrite Ek; reflexivity). rewrite Eo.
+        assert (Estep : ftx_step rs id (keys, ops, pays) (pos, o) = (keys, ops, pays)).
+        { unfold ftx_step. rewrite Ek. reflexivity. }
+        rewrite Estep.
+        destruct (IH keys ops pays) as (H1 & H2 & H3).
+        { intros x k' Hx. apply Hw. right. exact Hx. }
+        simpl. split; [exact H1|]. split; [exact H2|exact H3].
+  Qed.
+
+  Lemma filter_tx_spec rs acc t :
+    (forall k, In k (tx_keys t) -> watched_key scopes rs k = true) ->
+    let acc' := filter_tx scopes rs acc t in
+    (forall x, In x (f_keys acc') <-> In x (f_keys acc) \/ In x (tx_keys t)) /\
+    (forall x, In x (f_ops acc') <-> In x (f_ops acc) \/ In x (map fst (wallet_outs t))) /\
+    f_txs acc' =
+      if existsb (fun o => mem_op o (r_watched rs) || mem_op o (f_ops acc)) (t_ins t) || has_keys t
+      then f_txs acc ++ [t] else f_txs acc.
+  Proof.
+    intros Hw. rewrite filter_tx_unfold. cbv zeta.
+    destruct (ftx_fold_spec rs (t_id t) (number_from 0 (t_outs t)) (f_keys acc) (f_ops acc) false)
+      as (H1 & H2 & H3).
+    { intros x k Hx Ek. apply Hw. unfold tx_keys. rewrite <- (out_keys_numbered (t_outs t) 0).
+      apply in_flat_map. exists x. split; [exact Hx|]. unfold out_keys. rewrite Ek. left. reflexivity. }
+    cbn [f_keys f_ops f_txs]. rewrite out_keys_numbered in H1.
+    split; [exact H1|]. split; [exact H2|].
+    rewrite H3. simpl. rewrite has_keys_wallet_outs. reflexivity.
+  Qed.
+
+  (** * Part 7: recording transactions *)
+
+  Lemma found_indices_In k keys i : In i (found_indices k keys) <-> In (k, i) keys.
+  Proof.
+    unfold found_indices. rewrite in_map_iff. split.
+    - intros (x & Ex & Hx). apply filter_In in Hx. destruct Hx as [Hx Ek].
+      apply bkey_eqb_eq in Ek. destruct x as [k' i']. simpl in *. subst. exact Hx.
+    - intros H. exists (k, i). split; [reflexivity|]. apply filter_In. split; [exact H|].
+      simpl. apply bkey_eqb_refl.
+  Qed.
+
+  Definition known' := known invalid_child scopes.
+
+  Lemma known_ext p1 p2 k : p_next p1 = p_next p2 -> known' p1 k = known' p2 k.
+  Proof.
+    intros E. unfold known', known, get_next. destruct k as [[s b] i]. rewrite E. reflexivity.
+  Qed.
+
+  Definition add_credits' := add_credits invalid_child scopes.
+  Definition add_relevant_tx' := add_relevant_tx invalid_child scopes.
+
+  Lemma add_credits_cons p id pos o outs :
+    add_credits' p id ((pos, o) :: outs) =
+    add_credits'
+      (match o_key o with
+       | Some k =>
+           if known' p k then
+             mark_used k
+               {| p_next := p_next p; p_used := p_used p; p_txs := p_txs p;
+                  p_unspent := p_unspent p ++ [((id, pos), o_val o)]; p_synced := p_synced p |}
+           else p
+       | None => p
+       end) id outs.
+  Proof. reflexivity. Qed.
+
+  Lemma add_credits_spec id : forall outs p,
+    (forall x k, In x outs -> o_key (snd x) = Some k -> known' p k = true) ->
+    let p' := add_credits' p id outs in
+    p_next p' = p_next p /\ p_txs p' = p_txs p /\ p_synced p' = p_synced p /\
+    p_unspent p' = p_unspent p ++ wallet_outs_from id outs /\
+    (forall x, In x (p_used p') <-> In x (p_used p) \/ In x (flat_map (fun y => out_keys (snd y)) outs)).
+  Proof.
+    induction outs as [|[pos o] outs IH]; intros p Hk.
+    - simpl. rewrite app_nil_r. repeat split; auto. intros [H|[]]. exact H.
+    - rewrite add_credits_cons.
+      unfold wallet_outs_from. cbn [flat_map snd fst]. fold (wallet_outs_from id outs).
+      destruct (o_key o) as [k|] eqn:Ek.
+      + assert (Eo : out_keys o = [k]) by (unfold out_keys; rewrite Ek; reflexivity). rewrite Eo.
+        pose proof (Hk (pos, o) k (or_introl eq_refl) Ek) as Hkn. rewrite Hkn.
+        set (p1 := mark_used k _).
+        destruct (IH p1) as (H1 & H2 & H3 & H4 & H5).
+        { intros x k' Hx Ek'. rewrite (known_ext p1 p) by reflexivity. apply (Hk x k'); [right; exact Hx|exact Ek']. }
+        split; [rewrite H1; reflexivity|]. split; [rewrite H2; reflexivity|].
+        split; [rewrite H3; reflexivity|]. split.
+        * rewrite H4. subst p1. cbn [mark_used p_unspent]. rewrite <- app_assoc. reflexivity.
+        * intros x. rewrite H5. subst p1. cbn [mark_used p_used]. rewrite ins_key_In. simpl.
+          intuition (subst; auto).
+      + assert (Eo : out_keys o = []) by (unfold out_keys; rewrite Ek; reflexivity). rewrite Eo.
+        destruct (IH p) as (H1 & H2 & H3 & H4 & H5).
+        { intros x k' Hx Ek'. apply (Hk x k'); [right; exact Hx|exact Ek']. }
+        simpl. exact (conj H1 (conj H2 (conj H3 (conj H4 H5)))).
+  Qed.
+
+  Lemma add_relevant_tx_spec h t p :
+    ~ In (t_id t) (map snd (p_txs p)) ->
+    (forall k, In k (tx_keys t) -> known' p k = true) ->
+    let p' := add_relevant_tx' h t p in
+    p_next p' = p_next p /\ p_synced p' = p_synced p /\
+    p_txs p' = p_txs p ++ [(h, t_id t)] /\
+    p_unspent p' = ledger_tx (p_unspent p) t /\
+    (forall x, In x (p_used p') <-> In x (p_used p) \/ In x (tx_keys t)).
+  Proof.
+    intros Hfresh Hk. unfold add_relevant_tx', add_relevant_tx.
+    assert (E : existsb (fun r => snd r =? t_id t) (p_txs p) = false).
+    { destruct (existsb _ (p_txs p)) eqn:E; [|reflexivity]. exfalso. apply Hfresh.
+      apply existsb_exists in E. destruct E as (r & Hr & Er). apply N.eqb_eq in Er.
+      apply in_map_iff. exists r. split; [exact Er|exact Hr]. }
+    rewrite E. cbv zeta.
+    set (p1 := {| p_next := p_next p; p_used := p_used p; p_txs := p_txs p ++ [(h, t_id t)];
+                  p_unspent := filter (fun u => negb (mem_op (fst u) (t_ins t))) (p_unspent p);
+                  p_synced := p_synced p |}).
+    destruct (add_credits_spec (t_id t) (number_from 0 (t_outs t)) p1) as (H1 & H2 & H3 & H4 & H5).
+    { intros x k Hx Ek. rewrite (known_ext p1 p) by reflexivity. apply Hk.
+      unfold tx_keys. rewrite <- (out_keys_numbered (t_outs t) 0). apply in_flat_map.
+      exists x. split; [exact Hx|]. unfold out_keys. rewrite Ek. left. reflexivity. }
+    fold add_credits'. rewrite out_keys_numbered in H5.
+    split; [exact H1|]. split; [exact H3|]. split; [exact H2|]. split; [exact H4|exact H5].
+  Qed.
+
+  (** an unconditional ledger step (the transaction is known to be relevant) *)
+  Definition force_step (h : N) (st : list (N * N) * list (outpoint * Z)) (t : tx) :=
+    (fst st ++ [(h, t_id t)], ledger_tx (snd st) t).
+
+  Lemma record_fold h : forall L p,
+    (forall t, In t L -> ~ In (t_id t) (map snd (p_txs p))) ->
+    NoDup (map t_id L) ->
+    (forall t k, In t L -> In k (tx_keys t) -> known' p k = true) ->
+    let p' := fold_left (fun p t => add_relevant_tx' h t p) L p in
+    p_next p' = p_next p /\ p_synced p' = p_synced p /\
+    (p_txs p', p_unspent p') = fold_left (force_step h) L (p_txs p, p_unspent p) /\
+    (forall x, In x (p_used p') <-> In x (p_used p) \/ In x (flat_map tx_keys L)).
+  Proof.
+    induction L as [|t L IH]; intros p Hfresh Hnd Hk.
+    - simpl. repeat split; auto. intros [H|[]]. exact H.
+    - cbn [fold_left].
+      destruct (add_relevant_tx_spec h t p) as (A1 & A2 & A3 & A4 & A5).
+      { apply Hfresh. left. reflexivity. }
+      { intros k Hin. apply (Hk t k); [left; reflexivity|exact Hin]. }
+      set (p1 := add_relevant_tx' h t p) in *.
+      inversion Hnd as [|a l Hna Hnd']; subst.
+      destruct (IH p1) as (B1 & B2 & B3 & B4).
+      { intros t' Ht'. rewrite A3, map_app, in_app_iff. simpl. intros [H|[H|[]]].
+        - apply (Hfresh t'); [right; exact Ht'|exact H].
+        - apply Hna. rewrite H. apply in_map. exact Ht'. }
+      { exact Hnd'. }
+      { intros t' k Ht' Hin. rewrite (known_ext p1 p) by exact A1. apply (Hk t' k); [right; exact Ht'|exact Hin]. }
+      split; [rewrite B1; exact A1|]. split; [rewrite B2; exact A2|]. split.
+      + rewrite B3, A3, A4. reflexivity.
+      + intros x. rewrite B4, A5. simpl. rewrite in_app_iff. tauto.
+  Qed.
+
+  Lemma fold_add_watched ops : forall rs,
+    let rs' := fold_left (fun rs o => add_watched o rs) ops rs in
+    r_scopes rs' = r_scopes rs /\ r_window rs' = r_window rs /\
+    (forall o, In o (r_watched rs') <-> In o (r_watched rs) \/ In o ops).
+  Proof.
+    induction ops as [|a ops IH]; intros rs; simpl.
+    - repeat split; auto. intros [H|[]]. exact H.
+    - destruct (IH (add_watched a rs)) as (H1 & H2 & H3).
+      split; [rewrite H1; reflexivity|]. split; [rewrite H2; reflexivity|].
+      intros o. rewrite H3. simpl. rewrite ins_op_In. intuition (subst; auto).
+  Qed.
+
+  Lemma get_branch_scopes_ext rs1 rs2 k :
+    r_scopes rs1 = r_scopes rs2 -> r_window rs1 = r_window rs2 -> get_branch k rs1 = get_branch k rs2.
+  Proof. intros E1 E2. unfold get_branch, state_for_scope. rewrite E1, E2. reflexivity. Qed.
+
+  (** ** list plumbing for the ledger *)
+  Lemma txs_of_app a b : txs_of (a ++ b) = txs_of a ++ txs_of b.
+  Proof. unfold txs_of. apply flat_map_app. Qed.
+  Lemma txs_of_single h b : txs_of [(h, b)] = map (pair h) b.
+  Proof. unfold txs_of. simpl. apply app_nil_r. Qed.
+  Lemma created_app a b : created (a ++ b) = created a ++ created b.
+  Proof. unfold created. apply flat_map_app. Qed.
+  Lemma inputs_app a b : inputs (a ++ b) = inputs a ++ inputs b.
+  Proof. unfold inputs. apply flat_map_app. Qed.
+  Lemma ids_app a b : ids (a ++ b) = ids a ++ ids b.
+  Proof. unfold ids. apply map_app. Qed.
+
+  Lemma ledger_app_utxo l1 : forall l2 o,
+    In o (map fst (snd (ledger (l1 ++ l2)))) ->
+    In o (map fst (snd (ledger l1))) \/ In o (created l2).
+  Proof.
+    induction l2 as [|x l2 IH] using rev_ind; intros o Ho.
+    - rewrite app_nil_r in Ho. left. exact Ho.
+    - rewrite app_assoc, ledger_snoc in Ho. unfold ledger_step, ledger_tx in Ho. cbn [snd] in Ho.
+      rewrite map_app, in_app_iff in Ho. rewrite created_app, in_app_iff.
+      destruct Ho as [Ho|Ho].
+      + assert (H : In o (map fst (snd (ledger (l1 ++ l2))))).
+        { rewrite in_map_iff in *. destruct Ho as (y & Ey & Hy). apply filter_In in Hy.
+          exists y. split; [exact Ey|apply Hy]. }
+        apply IH in H. tauto.
+      + right. right. unfold created. simpl. rewrite app_nil_r. exact Ho.
+  Qed.
+
+  Lemma ledger_rec_ids l : forall x, In x (map snd (fst (ledger l))) -> In x (ids l).
+  Proof.
+    induction l as [|y l IH] using rev_ind; intros x Hx; [destruct Hx|].
+    rewrite ledger_snoc in Hx. unfold ledger_step in Hx. cbn [fst] in Hx.
+    rewrite ids_app, in_app_iff.
+    destruct (relevant _ _).
+    - rewrite map_app, in_app_iff in Hx. destruct Hx as [Hx|Hx]; [left; apply IH; exact Hx|].
+      right. simpl in *. tauto.
+    - left. apply IH. exact Hx.
+  Qed.
+
+  Lemma existsb_ext_in {A} (f g : A -> bool) l :
+    (forall x, In x l -> f x = g x) -> existsb f l = existsb g l.
+  Proof.
+    induction l as [|a l IH]; simpl; intros H; [reflexivity|].
+    rewrite (H a (or_introl eq_refl)), IH; [reflexivity|]. intros x Hx. apply H. right. exact Hx.
+  Qed.
+
+  Lemma NoDup_snoc {A} (l : list A) x : NoDup l -> ~ In x l -> NoDup (l ++ [x]).
+  Proof.
+    induction l as [|a l IH]; simpl; intros Hnd Hx.
+    - constructor; [intros []|constructor].
+    - inversion Hnd; subst. constructor.
+      + rewrite in_app_iff. simpl. intros [H|[H|[]]]; [contradiction|]. apply Hx. left. symmetry. exact H.
+      + apply IH; [assumption|]. intros H. apply Hx. right. exact H.
+  Qed.
+
+  Lemma block_keys_snoc done t : block_keys (done ++ [t]) = block_keys done ++ tx_keys t.
+  Proof. unfold block_keys. rewrite flat_map_app. simpl. rewrite app_nil_r. reflexivity. Qed.
+
+  Lemma created_single h t : created [(h, t)] = map fst (wallet_outs t).
+  Proof. unfold created. simpl. apply app_nil_r. Qed.
+
+  (** ** the filter over one block agrees with the ledger *)
+  Lemma filter_block_fold rs h pre b :
+    (forall t k, In t b -> In k (tx_keys t) -> watched_key scopes rs k = true) ->
+    (forall o, In o (map fst (snd (ledger (txs_of pre)))) -> In o (r_watched rs)) ->
+    (forall o, In o (r_watched rs) -> In o (created (txs_of pre))) ->
+    (forall done t rest, b = done ++ t :: rest ->
+       forall o, In o (t_ins t) -> ~ In o (inputs (txs_of pre ++ map (pair h) done))) ->
+    (forall done t rest, b = done ++ t :: rest -> ~ In (t_id t) (map t_id done)) ->
+    let r := fold_left (filter_tx scopes rs) b empty_fresp in
+    (forall x, In x (f_keys r) <-> In x (block_keys b)) /\
+    (forall o, In o (f_ops r) <-> In o (created (map (pair h) b))) /\
+    fold_left (force_step h) (f_txs r) (ledger (txs_of pre)) = ledger (txs_of pre ++ map (pair h) b) /\
+    NoDup (map t_id (f_txs r)) /\
+    (forall t, In t (f_txs r) -> In t b) /\
+    (forall t, In t b -> has_keys t = true -> In t (f_txs r)).
+  Proof.
+    intros Hw HWa HWb Hin Hid.
+    apply (fold_left_inv (filter_tx scopes rs)
+      (fun done acc =>
+        (forall x, In x (f_keys acc) <-> In x (block_keys done)) /\
+        (forall o, In o (f_ops acc) <-> In o (created (map (pair h) done))) /\
+        fold_left (force_step h) (f_txs acc) (ledger (txs_of pre)) = ledger (txs_of pre ++ map (pair h) done) /\
+        NoDup (map t_id (f_txs acc)) /\
+        (forall t, In t (f_txs acc) -> In t done) /\
+        (forall t, In t done -> has_keys t = true -> In t (f_txs acc)))).
+    - simpl. rewrite app_nil_r. split; [tauto|]. split; [tauto|]. split; [reflexivity|].
+      split; [constructor|]. split; [tauto|tauto].
+    - intros done t rest acc Eb (P1 & P2 & P3 & P4 & P5 & P6).
+      assert (Htb : In t b) by (rewrite Eb; apply in_or_app; right; left; reflexivity).
+      destruct (filter_tx_spec rs acc t (fun k Hk => Hw t k Htb Hk)) as (F1 & F2 & F3).
+      set (acc' := filter_tx scopes rs acc t) in *.
+      set (past := txs_of pre ++ map (pair h) done) in *.
+      assert (Epast : txs_of pre ++ map (pair h) (done ++ [t]) = past ++ [(h, t)]).
+      { unfold past. rewrite map_app, app_assoc. reflexivity. }
+      (* the filter's spend test agrees with the ledger's *)
+      assert (Hsp : existsb (fun o => mem_op o (r_watched rs) || mem_op o (f_ops acc)) (t_ins t) =
+                    existsb (fun o => mem_op o (map fst (snd (ledger past)))) (t_ins t)).
+      { apply existsb_ext_in. intros o Ho. apply Bool.eq_iff_eq_true.
+        rewrite orb_true_iff, !mem_op_In. split.
+        - intros Hwo. apply ledger_utxo_complete.
+          + unfold past. rewrite created_app, in_app_iff. destruct Hwo as [Hwo|Hwo].
+            * left. apply HWb. exact Hwo.
+            * right. apply P2. exact Hwo.
+          + apply (Hin done t rest Eb o Ho).
+        - intros Hu. unfold past in Hu. apply ledger_app_utxo in Hu. destruct Hu as [Hu|Hu].
+          + left. apply HWa. exact Hu.
+          + right. apply P2. exact Hu. }
+      assert (Hrel : existsb (fun o => mem_op o (r_watched rs) || mem_op o (f_ops acc)) (t_ins t) || has_keys t =
+                     relevant (snd (ledger past)) t).
+      { unfold relevant. rewrite Hsp. apply orb_comm. }
+      rewrite Hrel in F3.
+      split; [|split; [|split; [|split; [|split]]]].
+      + intros x. rewrite F1, P1, block_keys_snoc, in_app_iff. reflexivity.
+      + intros o. rewrite F2, P2, map_app, created_app, in_app_iff. simpl map. rewrite created_single. reflexivity.
+      + rewrite Epast, ledger_snoc. unfold ledger_step. cbn [fst snd]. rewrite F3.
+        destruct (relevant (snd (ledger past)) t) eqn:Er.
+        * rewrite fold_left_app. cbn [fold_left]. rewrite P3. reflexivity.
+        * rewrite P3, (ledger_tx_irrelevant _ _ Er). destruct (ledger past); reflexivity.
+      + rewrite F3. destruct (relevant (snd (ledger past)) t); [|exact P4].
+        rewrite map_app. simpl. apply NoDup_snoc; [exact P4|].
+        intros Hx. apply (Hid done t rest Eb). apply in_map_iff in Hx. destruct Hx as (y & Ey & Hy).
+        apply in_map_iff. exists y. split; [exact Ey|apply P5; exact Hy].
+      + intros t'. rewrite F3, in_app_iff. destruct (relevant (snd (ledger past)) t).
+        * rewrite in_app_iff. intros [H|H]; [left; apply P5; exact H|right; exact H].
+        * intros H. left. apply P5. exact H.
+      + intros t'. rewrite in_app_iff. intros [Ht'|[<-|[]]] Hk.
+        * rewrite F3. destruct (relevant (snd (ledger past)) t); [apply in_or_app; left|]; apply P6; assumption.
+        * rewrite F3. unfold relevant. rewrite Hk. simpl. apply in_or_app. right. left. reflexivity.
+  Qed.
+
+  (** * Part 8: the invariant of the recovery loop *)
+
+  (** 1 + the highest index paid on branch [k] in the blocks [hb] (0 if none) *)
+  Definition found_before (k : bkey) (hb : list (N * block)) : N :=
+    fold_left (fun n x => max_next n (paid_on k (snd x))) hb 0.
+
+  Lemma found_before_snoc k pre x :
+    found_before k (pre ++ [x]) = max_next (found_before k pre) (paid_on k (snd x)).
+  Proof. unfold found_before. rewrite fold_left_app. reflexivity. Qed.
+
+  (** The look-ahead hypothesis for one block (DESIGN A.5): every index paid
+      in the block is a valid child of an active scope and lies, counted in
+      valid indices, less than W beyond what was paid in earlier blocks. *)
+  Definition block_within (W : N) (pre : list (N * block)) (b : block) : Prop :=
+    forall k i, In i (paid_on k b) ->
+      In (fst k) scopes /\ valid k i = true /\ rank k i < rank k (found_before k pre) + W.
+
+  (** consensus well-formedness of one block after [pre]: no outpoint spent
+      twice, transaction ids distinct *)
+  Definition block_wf (pre : list (N * block)) (h : N) (b : block) : Prop :=
+    (forall done t rest, b = done ++ t :: rest ->
+       forall o, In o (t_ins t) -> ~ In o (inputs (txs_of pre ++ map (pair h) done))) /\
+    (forall done t rest, b = done ++ t :: rest ->
+       ~ In (t_id t) (ids (txs_of pre ++ map (pair h) done))).
+
+  (** the persistent state is what the ledger of the scanned blocks says *)
+  Definition pinv (p : pstate) (pre : list (N * block)) : Prop :=
+    (forall k, In (fst k) scopes -> get_next k p = found_before k pre) /\
+    (forall x, In x (flat_map (fun y => block_keys (snd y)) pre) -> In x (p_used p)) /\
+    (p_txs p, p_unspent p) = ledger (txs_of pre).
+
+  Definition inv0 (W : N) (rs : rstate) (p : pstate) (pre : list (N * block)) : Prop :=
+    pinv p pre /\
+    (forall k, In (fst k) scopes ->
+       br_ok k W (get_branch k rs) /\ b_next (get_branch k rs) = get_next k p) /\
+    (forall o, In o (map fst (p_unspent p)) -> In o (r_watched rs)) /\
+    (forall o, In o (r_watched rs) -> In o (created (txs_of pre))).
+
+  Definition expanded (rs : rstate) : Prop :=
+    forall k, In (fst k) scopes -> br_expanded k (get_branch k rs).
+
+  Lemma scope_bkeys_In k : existsb (bkey_eqb k) (scope_bkeys scopes) = true <-> In (fst k) scopes.
+  Proof.
+    unfold scope_bkeys. rewrite existsb_exists. split.
+    - intros (x & Hx & E). apply bkey_eqb_eq in E. subst x.
+      apply in_app_iff in Hx. destruct Hx as [Hx|Hx]; apply in_map_iff in Hx;
+        destruct Hx as (s & Es & Hs); subst k; exact Hs.
+    - intros H. exists k. split; [|apply bkey_eqb_refl].
+      destruct k as [s b]. simpl in H. apply in_app_iff. destruct b.
+      + right. apply in_map_iff. exists s. auto.
+      + left. apply in_map_iff. exists s. auto.
+  Qed.
+
+  Lemma scope_bkeys_NoDup : NoDup (scope_bkeys scopes).
+  Proof.
+    unfold scope_bkeys.
+    assert (G : forall (b : bool) l, NoDup l -> NoDup (map (fun s : scope => (s, b)) l)).
+    { intros b l Hl. induction Hl as [|a l Ha Hl IH]; simpl; constructor; [|exact IH].
+      intros Hin. apply in_map_iff in Hin. destruct Hin as (s & Es & Hs). inversion Es; subst. contradiction. }
+    assert (D : forall l1 l2 : list bkey, NoDup l1 -> NoDup l2 ->
+                (forall x, In x l1 -> ~ In x l2) -> NoDup (l1 ++ l2)).
+    { induction l1 as [|a l1 IH]; simpl; intros l2 H1 H2 Hd; [exact H2|].
+      inversion H1; subst. constructor.
+      - rewrite in_app_iff. intros [H|H]; [contradiction|]. apply (Hd a); [left; reflexivity|exact H].
+      - apply IH; try assumption. intros x Hx. apply Hd. right. exact Hx. }
+    apply D; [apply G; exact scopes_nodup|apply G; exact scopes_nodup|].
+    intros x Hx Hx'. apply in_map_iff in Hx. apply in_map_iff in Hx'.
+    destruct Hx as (s & Es & _), Hx' as (s' & Es' & _). subst x. inversion Es'.
+  Qed.
+
+  Lemma flat_map_nil_all {A B} (f : A -> list B) l :
+    (forall x, In x l -> f x = []) -> flat_map f l = [].
+  Proof.
+    induction l as [|a l IH]; simpl; intros H; [reflexivity|].
+    rewrite (H a (or_introl eq_refl)), IH; [reflexivity|]. intros x Hx. apply H. right. exact Hx.
+  Qed.
+
+  Lemma ids_map_pair h (l : list tx) : ids (map (pair h) l) = map t_id l.
+  Proof. unfold ids. rewrite map_map. reflexivity. Qed.
+
+  Lemma in_block_keys b t k : In t b -> In k (tx_keys t) -> In k (block_keys b).
+  Proof. intros Ht Hk. unfold block_keys. apply in_flat_map. exists t. split; assumption. Qed.
+
+  (** every path paid in a block within the window is watched by the
+      expanded state *)
+  Lemma watched_all W rs p pre b :
+    inv0 W rs p pre -> expanded rs -> block_within W pre b ->
+    forall t k, In t b -> In k (tx_keys t) -> watched_key scopes rs k = true.
+  Proof.
+    intros (Hp & Hbr & _ & _) Hex Hbw t [[s bb] i] Ht Hk.
+    pose proof (in_block_keys b t _ Ht Hk) as Hbk.
+    assert (Hpaid : In i (paid_on (s, bb) b)) by (unfold paid_on; apply found_indices_In; exact Hbk).
+    destruct (Hbw (s, bb) i Hpaid) as (Hs & Hv & Hr). simpl in Hs.
+    destruct (Hbr (s, bb) Hs) as ((Hw & _ & _ & H1 & _) & Hn).
+    destruct (Hex (s, bb) Hs) as (_ & He).
+    destruct Hp as (Hnext & _ & _). rewrite (Hnext (s, bb) Hs) in Hn.
+    unfold watched_key. apply andb_true_iff. split; [apply memN_In; exact Hs|].
+    unfold has_addr. apply memN_In. apply H1; [|exact Hv].
+    apply (rank_lt_index (s, bb)). rewrite Hn, Hw in He. lia.
+  Qed.
+
+  Lemma txs_of_snoc pre h b : txs_of (pre ++ [(h, b)]) = txs_of pre ++ map (pair h) b.
+  Proof. rewrite txs_of_app, txs_of_single. reflexivity. Qed.
+
+  Lemma keys_snoc pre h b :
+    flat_map (fun y : N * block => block_keys (snd y)) (pre ++ [(h, b)]) =
+    flat_map (fun y : N * block => block_keys (snd y)) pre ++ block_keys b.
+  Proof. rewrite flat_map_app. simpl. rewrite app_nil_r. reflexivity. Qed.
+
+  (** ** a block without a match changes nothing, and the ledger agrees *)
+  Lemma block_no_match W rs p pre h b :
+    inv0 W rs p pre -> expanded rs -> block_within W pre b -> block_wf pre h b ->
+    filter_block scopes rs b = None ->
+    inv0 W rs p (pre ++ [(h, b)]).
+  Proof.
+    intros Hinv Hex Hbw [Hin Hid] Hnone.
+    pose proof (watched_all W rs p pre b Hinv Hex Hbw) as Hw.
+    destruct Hinv as ((Hnext & Hused & Hled) & Hbr & HWa & HWb).
+    assert (HWa' : forall o, In o (map fst (snd (ledger (txs_of pre)))) -> In o (r_watched rs)).
+    { rewrite <- Hled. exact HWa. }
+    destruct (filter_block_fold rs h pre b Hw HWa' HWb Hin) as (F1 & F2 & F3 & F4 & F5 & F6).
+    { intros done t rest Eb Hx. apply (Hid done t rest Eb). rewrite ids_app, in_app_iff. right.
+      rewrite ids_map_pair. exact Hx. }
+    unfold filter_block in Hnone.
+    set (r := fold_left (filter_tx scopes rs) b empty_fresp) in *.
+    destruct (f_txs r) eqn:Er; [|discriminate]. simpl in F3.
+    assert (Hkeys : block_keys b = []).
+    { unfold block_keys. apply flat_map_nil_all. intros t Ht.
+      destruct (tx_keys t) eqn:Ek; [reflexivity|]. exfalso.
+      apply (F6 t Ht). unfold has_keys. rewrite Ek. reflexivity. }
+    split; [|split; [exact Hbr|split; [exact HWa|]]].
+    - split; [|split].
+      + intros k Hk. rewrite found_before_snoc. simpl. unfold paid_on. rewrite Hkeys. simpl. apply Hnext. exact Hk.
+      + intros x. rewrite keys_snoc, Hkeys, app_nil_r. apply Hused.
+      + rewrite txs_of_snoc, <- F3. exact Hled.
+    - intros o Ho. rewrite txs_of_snoc, created_app. apply in_or_app. left. apply HWb. exact Ho.
+  Qed.
+
+  Definition process_response' := process_response invalid_child inv_bound scopes.
+
+  Lemma in_block_keys_inv b k : In k (block_keys b) -> exists t, In t b /\ In k (tx_keys t).
+  Proof. unfold block_keys. intros H. apply in_flat_map in H. exact H. Qed.
+
+  (** ** a block with a match: the response is processed and the ledger agrees *)
+  Lemma block_match W rs p pre h b r :
+    inv0 W rs p pre -> expanded rs -> block_within W pre b -> block_wf pre h b ->
+    filter_block scopes rs b = Some r ->
+    let st2 := process_response' h r (rs, p) in
+    inv0 W (fst st2) (snd st2) (pre ++ [(h, b)]).
+  Proof.
+    intros Hinv Hex Hbw [Hin Hid] Hsome.
+    pose proof (watched_all W rs p pre b Hinv Hex Hbw) as Hw.
+    destruct Hinv as ((Hnext & Hused & Hled) & Hbr & HWa & HWb).
+    assert (HWa' : forall o, In o (map fst (snd (ledger (txs_of pre)))) -> In o (r_watched rs)).
+    { rewrite <- Hled. exact HWa. }
+    destruct (filter_block_fold rs h pre b Hw HWa' HWb Hin) as (F1 & F2 & F3 & F4 & F5 & F6).
+    { intros done t rest Eb Hx. apply (Hid done t rest Eb). rewrite ids_app, in_app_iff. right.
+      rewrite ids_map_pair. exact Hx. }
+    unfold filter_block in Hsome.
+    set (r0 := fold_left (filter_tx scopes rs) b empty_fresp) in *.
+    assert (Er : r = r0) by (destruct (f_txs r0); [discriminate|inversion Hsome; reflexivity]).
+    subst r. clear Hsome.
+    (* extendFoundAddresses *)
+    unfold process_response', process_response.
+    destruct (efb_fold (f_keys r0) (scope_bkeys scopes) scope_bkeys_NoDup (rs, p))
+      as (I1 & I2 & I3 & I4 & I5 & I6 & I7 & I8 & I9).
+    fold efa in I1, I2, I3, I4, I5, I6, I7, I8, I9.
+    change (fold_left (fun st k => efb k (f_keys r0) st) (scope_bkeys scopes) (rs, p))
+      with (extend_found_addresses invalid_child inv_bound scopes (f_keys r0) (rs, p)) in *.
+    destruct (extend_found_addresses invalid_child inv_bound scopes (f_keys r0) (rs, p)) as [rs1 p1].
+    cbn [fst snd] in *.
+    (* per branch facts *)
+    assert (Hidx : forall k i, In i (found_indices k (f_keys r0)) <-> In i (paid_on k b)).
+    { intros k i. unfold paid_on. rewrite !found_indices_In. apply F1. }
+    assert (Hbranch : forall k, In (fst k) scopes ->
+              br_ok k W (get_branch k rs1) /\
+              b_next (get_branch k rs1) = found_before k (pre ++ [(h, b)]) /\
+              get_next k p1 = found_before k (pre ++ [(h, b)])).
+    { intros k Hk. destruct (Hbr k Hk) as (Hok & Hn).
+      assert (Hmem : existsb (bkey_eqb k) (scope_bkeys scopes) = true) by (apply scope_bkeys_In; exact Hk).
+      assert (Haddr : forall i, In i (found_indices k (f_keys r0)) -> In i (b_addrs (get_branch k rs))).
+      { intros i Hi. apply Hidx in Hi. unfold paid_on in Hi. apply found_indices_In in Hi.
+        destruct (in_block_keys_inv b _ Hi) as (t & Ht & Hkt).
+        pose proof (Hw t _ Ht Hkt) as Hwk. destruct k as [s bb]. unfold watched_key in Hwk.
+        apply andb_true_iff in Hwk. destruct Hwk as [_ Hwk]. apply memN_In. exact Hwk. }
+      destruct (report_all_ok k W (found_indices k (f_keys r0)) _ Hok) as (Hok' & Hn' & _ & _).
+      rewrite I1, Hmem.
+      assert (Efb : max_next (b_next (get_branch k rs)) (found_indices k (f_keys r0)) =
+                    found_before k (pre ++ [(h, b)])).
+      { rewrite found_before_snoc. simpl. rewrite Hn, (Hnext k Hk). apply max_next_set. apply Hidx. }
+      split; [exact Hok'|]. split; [rewrite Hn'; exact Efb|].
+      rewrite (I3 k W Hmem Hok (eq_sym Hn) Haddr), Hn'. exact Efb. }
+    (* watched outpoints and recorded transactions *)
+    destruct (fold_add_watched (f_ops r0) rs1) as (W1 & W2 & W3).
+    set (rs2 := fold_left (fun rs o => add_watched o rs) (f_ops r0) rs1) in *.
+    assert (Hknown : forall t k, In t (f_txs r0) -> In k (tx_keys t) -> known' p1 k = true).
+    { intros t [[s bb] i] Ht Hk. apply F5 in Ht.
+      pose proof (in_block_keys b t _ Ht Hk) as Hbk.
+      assert (Hpaid : In i (paid_on (s, bb) b)) by (unfold paid_on; apply found_indices_In; exact Hbk).
+      destruct (Hbw (s, bb) i Hpaid) as (Hs & Hv & _). simpl in Hs.
+      destruct (Hbranch (s, bb) Hs) as (_ & _ & Hnx).
+      unfold known', known. rewrite Hnx, found_before_snoc. simpl.
+      destruct (max_next_spec (paid_on (s, bb) b) (found_before (s, bb) pre)) as (_ & M2 & _).
+      apply andb_true_iff. split; [apply andb_true_iff; split|].
+      - apply memN_In. exact Hs.
+      - apply N.ltb_lt. apply M2. exact Hpaid.
+      - exact Hv. }
+    destruct (record_fold h (f_txs r0) p1) as (R1 & R2 & R3 & R4).
+    { intros t Ht Hx. rewrite I6 in Hx.
+      assert (Hx' : In (t_id t) (ids (txs_of pre))).
+      { apply ledger_rec_ids. rewrite <- Hled. exact Hx. }
+      apply F5 in Ht. destruct (in_split _ _ Ht) as (done & rest & Eb).
+      apply (Hid done t rest Eb). rewrite ids_app, in_app_iff. left. exact Hx'. }
+    { exact F4. }
+    { exact Hknown. }
+    fold add_relevant_tx' in *.
+    set (p2 := fold_left (fun p t => add_relevant_tx' h t p) (f_txs r0) p1) in *.
+    cbn [fst snd].
+    assert (Hled2 : (p_txs p2, p_unspent p2) = ledger (txs_of (pre ++ [(h, b)]))).
+    { rewrite R3, I6, I7, Hled, txs_of_snoc. exact F3. }
+    split; [|split; [|split]].
+    - split; [|split; [|exact Hled2]].
+      + intros k Hk. destruct (Hbranch k Hk) as (_ & _ & Hnx). unfold get_next in *. rewrite R1. exact Hnx.
+      + intros x. rewrite keys_snoc, in_app_iff. intros [Hx|Hx].
+        * apply R4. left. apply I9. left. apply Hused. exact Hx.
+        * apply R4. right. destruct (in_block_keys_inv b x Hx) as (t & Ht & Hkt).
+          apply in_flat_map. exists t. split; [|exact Hkt]. apply F6; [exact Ht|].
+          unfold has_keys. destruct (tx_keys t); [destruct Hkt|reflexivity].
+    - intros k Hk. destruct (Hbranch k Hk) as (Hok & Hn & Hnx).
+      rewrite (get_branch_scopes_ext rs2 rs1 k W1 W2).
+      split; [exact Hok|]. rewrite Hn. unfold get_next in *. rewrite R1. symmetry. exact Hnx.
+    - intros o Ho. apply W3.
+      assert (Ho' : In o (map fst (snd (ledger (txs_of pre ++ map (pair h) b))))).
+      { rewrite <- txs_of_snoc, <- Hled2. exact Ho. }
+      apply ledger_app_utxo in Ho'. destruct Ho' as [Ho'|Ho'].
+      + left. rewrite I4. apply HWa'. exact Ho'.
+      + right. apply F2. exact Ho'.
+    - intros o Ho. apply W3 in Ho. rewrite txs_of_snoc, created_app, in_app_iff. destruct Ho as [Ho|Ho].
+      + left. apply HWb. rewrite <- I4. exact Ho.
+      + right. apply F2. exact Ho.
+  Qed.
+
+  Lemma expand_all_inv W rs p pre :
+    inv0 W rs p pre -> inv0 W (expand_all' rs) p pre /\ expanded (expand_all' rs).
+  Proof.
+    intros (Hp & Hbr & HWa & HWb). destruct (expand_all_get rs) as (G1 & G2 & G3).
+    split; [split; [exact Hp|split; [|split]]|].
+    - intros k Hk. destruct (Hbr k Hk) as (Hok & Hn). rewrite G1.
+      assert (Hm : memN (fst k) scopes = true) by (apply memN_In; exact Hk). rewrite Hm.
+      destruct (expand_branch_ok k W _ Hok) as (Hok' & _ & Hn' & _).
+      split; [exact Hok'|]. rewrite Hn'. exact Hn.
+    - intros o Ho. rewrite G2. apply HWa. exact Ho.
+    - intros o Ho. rewrite G2 in Ho. apply HWb. exact Ho.
+    - intros k Hk. destruct (Hbr k Hk) as (Hok & Hn). rewrite G1.
+      assert (Hm : memN (fst k) scopes = true) by (apply memN_In; exact Hk). rewrite Hm.
+      destruct (expand_branch_ok k W _ Hok) as (_ & He & _ & _). exact He.
+  Qed.
+
+  Lemma filter_blocks_spec rs : forall batch i0,
+    match filter_blocks scopes rs i0 batch with
+    | None => forall x, In x batch -> filter_block scopes rs (snd x) = None
+    | Some (i, h, r) =>
+        exists skipped b rest, batch = skipped ++ (h, b) :: rest /\ i = (i0 + length skipped)%nat /\
+          (forall x, In x skipped -> filter_block scopes rs (snd x) = None) /\
+          filter_block scopes rs b = Some r
+    end.
+  Proof.
+    induction batch as [|[h b] batch IH]; intros i0; simpl.
+    - intros x [].
+    - destruct (filter_block scopes rs b) as [r|] eqn:Eb.
+      + exists [], b, batch. simpl. split; [reflexivity|]. split; [lia|]. split; [intros x []|exact Eb].
+      + specialize (IH (S i0)). destruct (filter_blocks scopes rs (S i0) batch) as [[[i h'] r]|].
+        * destruct IH as (skipped & b' & rest & E1 & E2 & E3 & E4).
+          exists ((h, b) :: skipped), b', rest. simpl. split; [rewrite E1; reflexivity|].
+          split; [lia|]. split; [|exact E4].
+          intros x [<-|Hx]; [exact Eb|apply E3; exact Hx].
+        * intros x [<-|Hx]; [exact Eb|apply IH; exact Hx].
+  Qed.
+
+  Lemma skipn_app_exact {A} (l1 : list A) x l2 : skipn (S (length l1)) (l1 ++ x :: l2) = l2.
+  Proof. induction l1 as [|a l1 IH]; simpl; [reflexivity|exact IH]. Qed.
+
+  (** hypotheses on the blocks of a batch scanned after [pre] *)
+  Definition batch_ok (W : N) (pre batch : list (N * block)) : Prop :=
+    forall done x rest, batch = done ++ x :: rest ->
+      block_within W (pre ++ done) (snd x) /\ block_wf (pre ++ done) (fst x) (snd x).
+
+  Lemma batch_ok_tail W pre x batch : batch_ok W pre (x :: batch) -> batch_ok W (pre ++ [x]) batch.
+  Proof.
+    intros H done y rest E. rewrite <- app_assoc. simpl.
+    apply (H (x :: done) y rest). rewrite E. reflexivity.
+  Qed.
+
+  Lemma batch_ok_app W pre b1 b2 : batch_ok W pre (b1 ++ b2) -> batch_ok W (pre ++ b1) b2.
+  Proof.
+    revert pre. induction b1 as [|x b1 IH]; intros pre H; simpl.
+    - rewrite app_nil_r. exact H.
+    - replace (pre ++ x :: b1) with ((pre ++ [x]) ++ b1) by (rewrite <- app_assoc; reflexivity).
+      apply IH. apply batch_ok_tail. exact H.
+  Qed.
+
+  Lemma batch_ok_prefix W pre b1 b2 : batch_ok W pre (b1 ++ b2) -> batch_ok W pre b1.
+  Proof.
+    intros H done x rest E. apply (H done x (rest ++ b2)). rewrite E, <- app_assoc. reflexivity.
+  Qed.
+
+  Lemma no_match_all W rs p : forall batch pre,
+    inv0 W rs p pre -> expanded rs -> batch_ok W pre batch ->
+    (forall x, In x batch -> filter_block scopes rs (snd x) = None) ->
+    inv0 W rs p (pre ++ batch).
+  Proof.
+    induction batch as [|[h b] batch IH]; intros pre Hinv Hex Hok Hnone.
+    - rewrite app_nil_r. exact Hinv.
+    - destruct (Hok [] (h, b) batch eq_refl) as (Hbw & Hwf). rewrite app_nil_r in Hbw, Hwf.
+      replace (pre ++ (h, b) :: batch) with ((pre ++ [(h, b)]) ++ batch) by (rewrite <- app_assoc; reflexivity).
+      apply IH.
+      + apply block_no_match; try assumption. apply (Hnone (h, b)). left. reflexivity.
+      + exact Hex.
+      + apply batch_ok_tail. exact Hok.
+      + intros x Hx. apply Hnone. right. exact Hx.
+  Qed.
+
+  Definition recover_scoped' := recover_scoped invalid_child inv_bound scopes.
+  Definition recover_batch' := recover_batch invalid_child inv_bound scopes.
+
+  (** ** recoverScopedAddresses preserves the invariant over a whole batch *)
+  Lemma recover_scoped_inv W : forall fuel batch pre rs p,
+    (length batch <= fuel)%nat ->
+    inv0 W rs p pre -> batch_ok W pre batch ->
+    let st' := recover_scoped' fuel (rs, p) batch in
+    inv0 W (fst st') (snd st') (pre ++ batch).
+  Proof.
+    induction fuel as [|f IH]; intros batch pre rs p Hlen Hinv Hok.
+    - destruct batch; [|simpl in Hlen; lia]. simpl. rewrite app_nil_r. exact Hinv.
+    - unfold recover_scoped'. cbn [recover_scoped fst snd]. fold expand_all'.
+      destruct (expand_all_inv W rs p pre Hinv) as (Hinv1 & Hex1).
+      set (rs1 := expand_all' rs) in *.
+      pose proof (filter_blocks_spec rs1 batch 0) as Hfb.
+      destruct (filter_blocks scopes rs1 0 batch) as [[[i h] r]|].
+      + destruct Hfb as (skipped & b & rest & Eb & Ei & Hskip & Hr). simpl in Ei. subst i.
+        rewrite Eb, skipn_app_exact.
+        assert (Hinv2 : inv0 W rs1 p (pre ++ skipped)).
+        { apply no_match_all; try assumption. rewrite Eb in Hok. eapply batch_ok_prefix. exact Hok. }
+        destruct (Hok skipped (h, b) rest Eb) as (Hbw & Hwf). cbn [fst snd] in Hbw, Hwf.
+        pose proof (block_match W rs1 p (pre ++ skipped) h b r Hinv2 Hex1 Hbw Hwf Hr) as Hinv3.
+        cbv zeta in Hinv3. fold process_response'.
+        set (st2 := process_response' h r (rs1, p)) in *.
+        replace (pre ++ skipped ++ (h, b) :: rest) with (((pre ++ skipped) ++ [(h, b)]) ++ rest)
+          by (rewrite <- !app_assoc; reflexivity).
+        destruct rest as [|y rest].
+        * rewrite app_nil_r. exact Hinv3.
+        * destruct st2 as [rs2 p2]. fold recover_scoped'. apply IH.
+          -- rewrite Eb, app_length in Hlen. simpl in Hlen. simpl. lia.
+          -- exact Hinv3.
+          -- rewrite Eb in Hok.
+             replace (skipped ++ (h, b) :: y :: rest) with ((skipped ++ [(h, b)]) ++ y :: rest) in Hok
+               by (rewrite <- app_assoc; reflexivity).
+             apply batch_ok_app in Hok. rewrite app_assoc in Hok. exact Hok.
+      + cbn [fst snd]. apply no_match_all; assumption.
+  Qed.
+
+  Lemma recover_batch_inv W batch pre rs p :
+    inv0 W rs p pre -> batch_ok W pre batch ->
+    let st' := recover_batch' (rs, p) batch in
+    inv0 W (fst st') (snd st') (pre ++ batch).
+  Proof.
+    intros Hinv Hok. unfold recover_batch', recover_batch. destruct batch as [|x batch].
+    - simpl. rewrite app_nil_r. exact Hinv.
+    - apply (recover_scoped_inv W (length (x :: batch)) (x :: batch) pre rs p); [lia|exact Hinv|exact Hok].
+  Qed.
+
+  (** * Part 9: resumption, batches, interrupted runs *)
+
+  Definition resurrect' := resurrect invalid_child scopes.
+
+  Lemma fold_left_map {A B C} (g : A -> C -> A) (f : B -> C) l : forall a,
+    fold_left (fun a x => g a (f x)) l a = fold_left g (map f l) a.
+  Proof. induction l as [|x l IH]; intros a; simpl; [reflexivity|apply IH]. Qed.
+
+  Lemma resurrect_inv W p pre : pinv p pre -> inv0 W (resurrect' W p) p pre.
+  Proof.
+    intros Hp. pose proof Hp as (Hnext & Hused & Hled).
+    set (f := fun (s : scope) (ss : sstate) =>
+                {| ss_ext := resurrect_branch invalid_child (s, false) (get_next (s, false) p) (ss_ext ss);
+                   ss_int := resurrect_branch invalid_child (s, true) (get_next (s, true) p) (ss_int ss) |}).
+    assert (E : resurrect' W p =
+                fold_left (fun rs o => add_watched o rs) (map fst (p_unspent p))
+                  (fold_left (fun rs s => set_scope s (f s (state_for_scope s rs)) rs) scopes (new_rstate W))).
+    { unfold resurrect', resurrect. rewrite <- fold_left_map. reflexivity. }
+    destruct (fold_scopes_get f scopes scopes_nodup (new_rstate W)) as (G1 & G2 & G3).
+    set (rs1 := fold_left (fun rs s => set_scope s (f s (state_for_scope s rs)) rs) scopes (new_rstate W)) in *.
+    destruct (fold_add_watched (map fst (p_unspent p)) rs1) as (W1 & W2 & W3).
+    rewrite <- E in W1, W2, W3.
+    split; [exact Hp|]. split; [|split].
+    - intros [s b] Hk. simpl in Hk.
+      rewrite (get_branch_scopes_ext (resurrect' W p) rs1 (s, b) W1 W2).
+      unfold get_branch. cbn [fst snd]. rewrite G1.
+      assert (Hm : memN s scopes = true) by (apply memN_In; exact Hk). rewrite Hm.
+      unfold state_for_scope, new_rstate. cbn [assoc_scope r_scopes r_window].
+      destruct b; cbn [branch f ss_ext ss_int new_sstate]; apply resurrect_branch_ok.
+    - intros o Ho. apply W3. right. exact Ho.
+    - intros o Ho. apply W3 in Ho. rewrite G2 in Ho. destruct Ho as [[]|Ho].
+      apply ledger_utxo_created. rewrite <- Hled. exact Ho.
+  Qed.
+
+  Lemma pinv_set_synced p pre h : pinv p pre -> pinv (set_synced h p) pre.
+  Proof. intros H. exact H. Qed.
+
+  Lemma inv0_set_synced W rs p pre h : inv0 W rs p pre -> inv0 W rs (set_synced h p) pre.
+  Proof. intros H. exact H. Qed.
+
+  Definition scanned (bday : N) (hs : list (N * block)) : list (N * block) :=
+    filter (fun x => bday <=? fst x) hs.
+
+  Definition ends_with (best : N) (hs : list (N * block)) : Prop :=
+    hs = [] \/ exists hs0 x, hs = hs0 ++ [x] /\ fst x = best.
+
+  Lemma ends_with_cons best a rest :
+    ends_with best (a :: rest) -> (rest = [] -> fst a = best) /\ ends_with best rest.
+  Proof.
+    intros [H|(hs0 & x & E & Hx)]; [discriminate|].
+    destruct hs0 as [|a0 hs0]; simpl in E; injection E as E1 E2.
+    - split; [intros _; rewrite E1; exact Hx|left; exact E2].
+    - split; [intros H; rewrite H in E2; destruct hs0; discriminate|right; exists hs0, x; auto].
+  Qed.
+
+  Definition recovery_loop' := recovery_loop invalid_child inv_bound scopes.
+
+  Lemma recovery_loop_inv W best bs bday : forall hs batch pre rs p,
+    inv0 W rs p pre -> batch_ok W pre (batch ++ scanned bday hs) ->
+    (hs = [] -> batch = []) -> ends_with best hs ->
+    let st' := recovery_loop' hs best bs bday batch (rs, p) in
+    inv0 W (fst st') (snd st') (pre ++ batch ++ scanned bday hs) /\
+    p_synced (snd st') = match hs with [] => p_synced p | _ => best end.
+  Proof.
+    induction hs as [|[h blk] rest IH]; intros batch pre rs p Hinv Hok Hb Hend.
+    - simpl. rewrite (Hb eq_refl). simpl. rewrite app_nil_r. split; [exact Hinv|reflexivity].
+    - destruct (ends_with_cons best _ _ Hend) as (Hlast & Hend').
+      unfold recovery_loop'. cbn [recovery_loop]. fold recovery_loop'. fold recover_batch'.
+      set (batch1 := if bday <=? h then batch ++ [(h, blk)] else batch).
+      assert (Eb : batch ++ scanned bday ((h, blk) :: rest) = batch1 ++ scanned bday rest).
+      { unfold scanned, batch1. simpl. destruct (bday <=? h); [rewrite <- app_assoc; reflexivity|reflexivity]. }
+      rewrite Eb in *.
+      destruct (Nat.eqb (length batch1) bs || (h =? best)) eqn:Eflush.
+      + pose proof (recover_batch_inv W batch1 pre rs p Hinv (batch_ok_prefix _ _ _ _ Hok)) as Hinv1.
+        cbv zeta in Hinv1. set (st1 := recover_batch' (rs, p) batch1) in *.
+        destruct (IH [] (pre ++ batch1) (fst st1) (set_synced h (snd st1))) as (I1 & I2).
+        * apply inv0_set_synced. exact Hinv1.
+        * simpl. apply batch_ok_app. exact Hok.
+        * reflexivity.
+        * exact Hend'.
+        * simpl in I1. rewrite <- app_assoc in I1. split; [exact I1|].
+          rewrite I2. destruct rest; [|reflexivity]. simpl. apply Hlast. reflexivity.
+      + destruct (IH batch1 pre rs p Hinv Hok) as (I1 & I2).
+        * intros Er. apply orb_false_iff in Eflush. destruct Eflush as [_ Eh].
+          pose proof (Hlast Er) as Hh. simpl in Hh. rewrite Hh, N.eqb_refl in Eh. discriminate.
+        * exact Hend'.
+        * split; [exact I1|]. rewrite I2. destruct rest; [|reflexivity].
+          apply orb_false_iff in Eflush. destruct Eflush as [_ Eh].
+          pose proof (Hlast eq_refl) as Hh. simpl in Hh. rewrite Hh, N.eqb_refl in Eh. discriminate.
+  Qed.
+
+  Definition recovery' := recovery invalid_child inv_bound scopes.
+
+  Lemma recovery_inv W bs bday best chain p pre :
+    pinv p pre ->
+    let hs := heights_to_scan chain (p_synced p) best in
+    batch_ok W pre (scanned bday hs) -> ends_with best hs ->
+    let p' := recovery' W bs bday best chain p in
+    pinv p' (pre ++ scanned bday hs) /\
+    p_synced p' = match hs with [] => p_synced p | _ => best end.
+  Proof.
+    intros Hp hs Hok Hend. unfold recovery', recovery. fold hs. fold resurrect'. fold recovery_loop'.
+    destruct (recovery_loop_inv W best bs bday hs [] pre (resurrect' W p) p) as (I1 & I2).
+    - apply resurrect_inv. exact Hp.
+    - exact Hok.
+    - reflexivity.
+    - exact Hend.
+    - simpl in I1. split; [apply I1|exact I2].
+  Qed.
+
+  (** ** heights, truncated chains *)
+  Lemma number_from_length {A} (l : list A) : forall a, length (number_from a l) = length l.
+  Proof. induction l as [|x l IH]; intros a; simpl; [reflexivity|rewrite IH; reflexivity]. Qed.
+
+  Lemma firstn_number_last {A} (d : A) (l : list A) : forall a c,
+    (c < length l)%nat ->
+    firstn (S c) (number_from a l) = firstn c (number_from a l) ++ [(a + N.of_nat c, nth c l d)].
+  Proof.
+    induction l as [|x l IH]; intros a c Hc; simpl in Hc; [lia|].
+    destruct c as [|c].
+    - simpl. rewrite N.add_0_r. reflexivity.
+    - cbn [number_from]. rewrite (firstn_cons (S c)). rewrite IH by lia.
+      cbn [firstn app nth]. do 4 f_equal. lia.
+  Qed.
+
+  Lemma hts_empty (chain : list block) synced best :
+    best <= synced -> heights_to_scan chain synced best = [].
+  Proof.
+    intros H. unfold heights_to_scan. apply skipn_all2.
+    pose proof (firstn_le_length (N.to_nat best) (number_from 1 chain)). lia.
+  Qed.
+
+  Lemma hts_split (chain : list block) synced best :
+    synced <= best ->
+    firstn (N.to_nat synced) (number_from 1 chain) ++ heights_to_scan chain synced best =
+    firstn (N.to_nat best) (number_from 1 chain).
+  Proof.
+    intros H. unfold heights_to_scan.
+    rewrite <- (firstn_skipn (N.to_nat synced) (firstn (N.to_nat best) (number_from 1 chain))) at 2.
+    f_equal. rewrite firstn_firstn. f_equal. lia.
+  Qed.
+
+  Lemma hts_ends (chain : list block) synced best :
+    synced < best -> best <= N.of_nat (length chain) ->
+    ends_with best (heights_to_scan chain synced best) /\ heights_to_scan chain synced best <> [].
+  Proof.
+    intros H1 H2. unfold heights_to_scan.
+    destruct (N.to_nat best) as [|c] eqn:Ec; [lia|].
+    rewrite (firstn_number_last (A:=block) [] chain 1 c) by lia.
+    rewrite skipn_app.
+    rewrite firstn_length, number_from_length.
+    rewrite (Nat.min_l c (length chain)) by lia.
+    replace (N.to_nat synced - c)%nat with 0%nat by lia. cbn [skipn].
+    split.
+    - right. eexists. eexists. split; [reflexivity|]. cbn [fst]. lia.
+    - intros E. apply app_eq_nil in E. destruct E as [_ E]. discriminate.
+  Qed.
+
+  Lemma scanned_app bday a b : scanned bday (a ++ b) = scanned bday a ++ scanned bday b.
+  Proof. unfold scanned. apply filter_app. Qed.
+
+  Definition recovery_runs' := recovery_runs invalid_child inv_bound scopes.
+
+  Lemma run_step W bs bday (chain : list block) p c :
+    let L := number_from 1 chain in
+    batch_ok W [] (scanned bday L) ->
+    pinv p (scanned bday (firstn (N.to_nat (p_synced p)) L)) ->
+    p_synced p <= N.of_nat (length chain) -> c <= N.of_nat (length chain) ->
+    let p' := recovery' W bs bday c chain p in
+    pinv p' (scanned bday (firstn (N.to_nat (p_synced p')) L)) /\
+    p_synced p' = N.max (p_synced p) c.
+  Proof.
+    intros L Hok Hp Hm Hc.
+    destruct (N.le_gt_cases c (p_synced p)) as [Hle|Hgt].
+    - pose proof (hts_empty chain (p_synced p) c Hle) as Eh.
+      destruct (recovery_inv W bs bday c chain p _ Hp) as (I1 & I2).
+      + rewrite Eh. simpl. intros done x rest E. destruct done; discriminate.
+      + rewrite Eh. left. reflexivity.
+      + cbv zeta. rewrite Eh in I1, I2. simpl in I1. rewrite app_nil_r in I1.
+        rewrite I2. split; [exact I1|lia].
+    - pose proof (hts_split chain (p_synced p) c ltac:(lia)) as Es. fold L in Es.
+      destruct (hts_ends chain (p_synced p) c Hgt Hc) as (He & Hne).
+      set (hs := heights_to_scan chain (p_synced p) c) in *.
+      destruct (recovery_inv W bs bday c chain p _ Hp) as (I1 & I2).
+      + fold hs.
+        assert (EL : scanned bday L = scanned bday (firstn (N.to_nat (p_synced p)) L) ++
+                                      scanned bday hs ++ scanned bday (skipn (N.to_nat c) L)).
+        { rewrite <- (firstn_skipn (N.to_nat c) L) at 1. rewrite <- Es, !scanned_app, <- app_assoc. reflexivity. }
+        rewrite EL in Hok. apply batch_ok_app in Hok. simpl in Hok.
+        eapply batch_ok_prefix. exact Hok.
+      + exact He.
+      + cbv zeta. fold hs in I1, I2. rewrite <- scanned_app, Es in I1.
+        destruct hs; [congruence|]. rewrite I2. split; [exact I1|lia].
+  Qed.
+
+  Lemma recovery_runs_inv W bs bday (chain : list block) : forall cuts p,
+    let L := number_from 1 chain in
+    batch_ok W [] (scanned bday L) ->
+    (forall c, In c cuts -> c <= N.of_nat (length chain)) ->
+    pinv p (scanned bday (firstn (N.to_nat (p_synced p)) L)) ->
+    p_synced p <= N.of_nat (length chain) ->
+    let p' := recovery_runs' W bs bday cuts chain p in
+    pinv p' (scanned bday (firstn (N.to_nat (p_synced p')) L)) /\
+    p_synced p' = fold_left N.max cuts (p_synced p).
+  Proof.
+    induction cuts as [|c cuts IH]; intros p L Hok Hc Hp Hm.
+    - simpl. split; [exact Hp|reflexivity].
+    - unfold recovery_runs', recovery_runs. cbn [fold_left]. fold recovery'.
+      destruct (run_step W bs bday chain p c Hok Hp Hm) as (S1 & S2).
+      { apply Hc. left. reflexivity. }
+      destruct (IH (recovery' W bs bday c chain p) Hok) as (J1 & J2).
+      + intros c' Hc'. apply Hc. right. exact Hc'.
+      + exact S1.
+      + rewrite S2. pose proof (Hc c (or_introl eq_refl)). lia.
+      + fold recovery_runs' in J1, J2 |- *. unfold recovery_runs', recovery_runs in J1, J2.
+        fold recovery' in J1, J2. split; [exact J1|]. rewrite J2, S2. reflexivity.
+  Qed.
+
+  Lemma fold_max_bound cuts : forall m b,
+    m <= b -> (forall c, In c cuts -> c <= b) -> fold_left N.max cuts m <= b.
+  Proof.
+    induction cuts as [|c cuts IH]; intros m b Hm Hc; simpl; [exact Hm|].
+    apply IH; [|intros c' Hc'; apply Hc; right; exact Hc'].
+    pose proof (Hc c (or_introl eq_refl)). lia.
+  Qed.
+
+  Lemma fold_max_ge cuts : forall m, m <= fold_left N.max cuts m /\ (forall c, In c cuts -> c <= fold_left N.max cuts m).
+  Proof.
+    induction cuts as [|c cuts IH]; intros m; simpl; [split; [lia|intros c []]|].
+    destruct (IH (N.max m c)) as (H1 & H2). split; [lia|].
+    intros c' [<-|Hc']; [lia|apply H2; exact Hc'].
+  Qed.
+
+  Lemma pinv_fresh : pinv fresh_pstate [].
+  Proof. split; [intros k _; reflexivity|]. split; [intros x []|reflexivity]. Qed.
+
+  (** the blocks recovery scans: from the birthday height on *)
+  Definition scanned_chain (bday : N) (chain : list block) : list (N * block) :=
+    scanned bday (number_from 1 chain).
+
+  (** * Main lemma: a fresh wallet, any window, any batch size, any
+      interruption points *)
+  Lemma recovery_runs_complete W bs bday (chain : list block) cuts :
+    batch_ok W [] (scanned_chain bday chain) ->
+    (forall c, In c cuts -> c <= N.of_nat (length chain)) ->
+    In (N.of_nat (length chain)) cuts ->
+    let p := recovery_runs' W bs bday cuts chain fresh_pstate in
+    pinv p (scanned_chain bday chain) /\ p_synced p = N.of_nat (length chain).
+  Proof.
+    intros Hok Hc Hlast.
+    destruct (recovery_runs_inv W bs bday chain cuts fresh_pstate Hok Hc) as (I1 & I2).
+    - simpl. exact pinv_fresh.
+    - simpl. lia.
+    - cbv zeta. simpl p_synced in I2.
+      assert (E : fold_left N.max cuts 0 = N.of_nat (length chain)).
+      { apply N.le_antisymm; [apply fold_max_bound; [lia|exact Hc]|apply fold_max_ge; exact Hlast]. }
+      rewrite I2, E in I1. rewrite I2, E. split; [|reflexivity].
+      rewrite Nat2N.id in I1. unfold scanned_chain.
+      rewrite firstn_all2 in I1; [exact I1|]. rewrite number_from_length. lia.
+  Qed.
+
+  (** * Part 10: the hypotheses in chain form and the conclusions in ledger form *)
+
+  (** DESIGN A.5: every block pays, on each branch, only valid indices of an
+      active scope that lie (counted in valid indices) less than W beyond
+      1 + the highest index paid on that branch in EARLIER blocks. *)
+  Definition within_window (W : N) (all : list (N * block)) : Prop :=
+    forall pre x post, all = pre ++ x :: post -> block_within W pre (snd x).
+
+  (** consensus rules used: transaction ids distinct, no outpoint spent twice *)
+  Definition chain_wf (all : list (N * block)) : Prop :=
+    NoDup (ids (txs_of all)) /\ NoDup (inputs (txs_of all)).
+
+  Lemma chain_wf_block all pre h b post :
+    chain_wf all -> all = pre ++ (h, b) :: post -> block_wf pre h b.
+  Proof.
+    intros [Hid Hin] E.
+    assert (Et : forall done t rest, b = done ++ t :: rest ->
+              txs_of all = (txs_of pre ++ map (pair h) done) ++ (h, t) :: (map (pair h) rest ++ txs_of post)).
+    { intros done t rest Eb. rewrite E, txs_of_app. unfold txs_of at 2. cbn [flat_map fst snd].
+      fold (txs_of post). rewrite Eb, map_app. simpl. rewrite <- !app_assoc. reflexivity. }
+    split.
+    - intros done t rest Eb o Ho Hino. rewrite (Et done t rest Eb), inputs_app in Hin.
+      apply (NoDup_app_disjoint _ _ o Hin Hino). unfold inputs. simpl. apply in_or_app. left. exact Ho.
+    - intros done t rest Eb Hx. rewrite (Et done t rest Eb), ids_app in Hid.
+      apply (NoDup_app_disjoint _ _ (t_id t) Hid Hx). left. reflexivity.
+  Qed.
+
+  Lemma batch_ok_of W all : within_window W all -> chain_wf all -> batch_ok W [] all.
+  Proof.
+    intros Hw Hwf done [h b] rest E. simpl. split.
+    - apply (Hw done (h, b) rest E).
+    - apply (chain_wf_block all done h b rest Hwf E).
+  Qed.
+
+  Lemma found_before_mono k (l : list (N * block)) : forall n,
+    n <= fold_left (fun n x => max_next n (paid_on k (snd x))) l n.
+  Proof.
+    induction l as [|x l IH]; intros n; simpl; [lia|].
+    pose proof (IH (max_next n (paid_on k (snd x)))).
+    destruct (max_next_spec (paid_on k (snd x)) n) as (H1 & _). lia.
+  Qed.
+
+  Lemma found_before_gt k all x i :
+    In x all -> In i (paid_on k (snd x)) -> i < found_before k all.
+  Proof.
+    intros Hx Hi. destruct (in_split _ _ Hx) as (l1 & l2 & E). subst all.
+    unfold found_before. rewrite fold_left_app. simpl.
+    pose proof (found_before_mono k l2 (max_next (fold_left (fun n y => max_next n (paid_on k (snd y))) l1 0)
+                                           (paid_on k (snd x)))) as Hm.
+    destruct (max_next_spec (paid_on k (snd x)) (fold_left (fun n y => max_next n (paid_on k (snd y))) l1 0))
+      as (_ & H2 & _).
+    specialize (H2 i Hi). lia.
+  Qed.
+
+  (** ** what the ledger's recorded list means *)
+  Inductive subseq {A} : list A -> list A -> Prop :=
+  | sub_nil : subseq [] []
+  | sub_skip l1 l2 x : subseq l1 l2 -> subseq l1 (x :: l2)
+  | sub_take l1 l2 x : subseq l1 l2 -> subseq (x :: l1) (x :: l2).
+
+  Lemma subseq_snoc_skip {A} (l1 l2 : list A) x : subseq l1 l2 -> subseq l1 (l2 ++ [x]).
+  Proof.
+    induction 1; simpl.
+    - apply sub_skip. constructor.
+    - apply sub_skip. assumption.
+    - apply sub_take. assumption.
+  Qed.
+
+  Lemma subseq_snoc_take {A} (l1 l2 : list A) x : subseq l1 l2 -> subseq (l1 ++ [x]) (l2 ++ [x]).
+  Proof.
+    induction 1; simpl.
+    - apply sub_take. constructor.
+    - apply sub_skip. assumption.
+    - apply sub_take. assumption.
+  Qed.
+
+  Definition tx_tags (l : list (N * tx)) : list (N * N) := map (fun x => (fst x, t_id (snd x))) l.
+
+  (** recorded transactions appear in chain order, each at most once *)
+  Lemma ledger_rec_subseq l : subseq (fst (ledger l)) (tx_tags l).
+  Proof.
+    induction l as [|x l IH] using rev_ind; [constructor|].
+    rewrite ledger_snoc. unfold ledger_step, tx_tags. cbn [fst]. rewrite map_app. simpl.
+    destruct (relevant _ _); [apply subseq_snoc_take|apply subseq_snoc_skip]; exact IH.
+  Qed.
+
+  Lemma ledger_rec_nodup l : NoDup (ids l) -> NoDup (map snd (fst (ledger l))).
+  Proof.
+    induction l as [|x l IH] using rev_ind; intros Hnd; [constructor|].
+    rewrite ids_app in Hnd. rewrite ledger_snoc. unfold ledger_step. cbn [fst].
+    pose proof (NoDup_app_l _ _ Hnd) as Hnd1.
+    destruct (relevant _ _); [|apply IH; exact Hnd1].
+    rewrite map_app. simpl. apply NoDup_snoc; [apply IH; exact Hnd1|].
+    intros Hx. apply ledger_rec_ids in Hx.
+    apply (NoDup_app_disjoint _ _ _ Hnd Hx). left. reflexivity.
+  Qed.
+
+  Lemma ledger_rec_grows l2 : forall st r,
+    In r (fst st) -> In r (fst (fold_left ledger_step l2 st)).
+  Proof.
+    induction l2 as [|x l2 IH]; intros st r Hr; simpl; [exact Hr|].
+    apply IH. unfold ledger_step. cbn [fst]. destruct (relevant _ _); [apply in_or_app; left|]; exact Hr.
+  Qed.
+
+  (** every transaction that pays a wallet path, or spends a wallet output
+      created earlier and not spent before, is recorded with its height *)
+  Lemma ledger_records l1 h t l2 :
+    has_keys t = true \/
+    (exists o, In o (t_ins t) /\ In o (created l1) /\ ~ In o (inputs l1)) ->
+    In (h, t_id t) (fst (ledger (l1 ++ (h, t) :: l2))).
+  Proof.
+    intros Hrel. unfold ledger. rewrite fold_left_app. cbn [fold_left]. fold (ledger l1).
+    apply ledger_rec_grows. unfold ledger_step. cbn [fst snd].
+    assert (E : relevant (snd (ledger l1)) t = true).
+    { unfold relevant. apply orb_true_iff. destruct Hrel as [Hk|(o & Ho & Hc & Hi)]; [left; exact Hk|].
+      right. apply existsb_exists. exists o. split; [exact Ho|]. apply mem_op_In.
+      apply ledger_utxo_complete; assumption. }
+    rewrite E. apply in_or_app. right. left. reflexivity.
+  Qed.
+
+  (** and only those *)
+  Lemma ledger_records_only l : forall r, In r (fst (ledger l)) ->
+    exists l1 h t l2, l = l1 ++ (h, t) :: l2 /\ r = (h, t_id t) /\
+      (has_keys t = true \/ exists o, In o (t_ins t) /\ In o (created l1)).
+  Proof.
+    induction l as [|x l IH] using rev_ind; intros r Hr; [destruct Hr|].
+    rewrite ledger_snoc in Hr. unfold ledger_step in Hr. cbn [fst] in Hr.
+    assert (Hold : In r (fst (ledger l)) ->
+              exists l1 h t l2, l ++ [x] = l1 ++ (h, t) :: l2 /\ r = (h, t_id t) /\
+                (has_keys t = true \/ exists o, In o (t_ins t) /\ In o (created l1))).
+    { intros H. destruct (IH r H) as (l1 & h & t & l2 & E & Er & Hrel).
+      exists l1, h, t, (l2 ++ [x]). split; [rewrite E, <- app_assoc; reflexivity|]. split; assumption. }
+    destruct (relevant (snd (ledger l)) (snd x)) eqn:Erel; [|apply Hold; exact Hr].
+    apply in_app_iff in Hr. destruct Hr as [Hr|[Hr|[]]]; [apply Hold; exact Hr|].
+    destruct x as [h t]. exists l, h, t, []. split; [reflexivity|]. split; [symmetry; exact Hr|].
+    unfold relevant in Erel. apply orb_true_iff in Erel. destruct Erel as [Hk|Hs]; [left; exact Hk|].
+    right. apply existsb_exists in Hs. destruct Hs as (o & Ho & Hm). exists o. split; [exact Ho|].
+    apply ledger_utxo_created. apply mem_op_In. exact Hm.
+  Qed.
+
+  (** * The completeness theorem (fresh wallet, any window, batch size and
+      interruption points) *)
+  Theorem recovery_complete W bs bday (chain : list block) cuts :
+    let all := scanned_chain bday chain in
+    within_window W all -> chain_wf all ->
+    (forall c, In c cuts -> c <= N.of_nat (length chain)) ->
+    In (N.of_nat (length chain)) cuts ->
+    let p := recovery_runs' W bs bday cuts chain fresh_pstate in
+    (* every used address is discovered: known to the address manager and marked used *)
+    (forall x k, In x all -> In k (block_keys (snd x)) -> In k (p_used p) /\ known' p k = true) /\
+    (* the recorded transactions and the unspent set are the ledger's *)
+    (p_txs p, p_unspent p) = ledger (txs_of all) /\
+    (* each branch's next index is 1 + the highest paid index, hence above every paid index *)
+    (forall k, In (fst k) scopes -> get_next k p = found_before k all) /\
+    (forall x k i, In x all -> In i (paid_on k (snd x)) -> i < get_next k p) /\
+    p_synced p = N.of_nat (length chain).
+  Proof.
+    intros all Hw Hwf Hc Hlast.
+    destruct (recovery_runs_complete W bs bday chain cuts (batch_ok_of W all Hw Hwf) Hc Hlast)
+      as ((Hnext & Hused & Hled) & Hs).
+    cbv zeta. set (p := recovery_runs' W bs bday cuts chain fresh_pstate) in *. fold all in Hnext, Hused, Hled.
+    assert (Hpaid : forall x k i, In x all -> In i (paid_on k (snd x)) ->
+                      In (fst k) scopes /\ valid k i = true /\ i < get_next k p).
+    { intros x k i Hx Hi. destruct (in_split _ _ Hx) as (l1 & l2 & E).
+      destruct (Hw l1 x l2 E k i Hi) as (Hs1 & Hv & _).
+      split; [exact Hs1|]. split; [exact Hv|]. rewrite (Hnext k Hs1). apply (found_before_gt k all x i Hx Hi). }
+    split; [|split; [exact Hled|split; [exact Hnext|split; [|exact Hs]]]].
+    - intros x [[s b] i] Hx Hk. split.
+      + apply Hused. apply in_flat_map. exists x. split; assumption.
+      + assert (Hi : In i (paid_on (s, b) (snd x))) by (unfold paid_on; apply found_indices_In; exact Hk).
+        destruct (Hpaid x (s, b) i Hx Hi) as (Hs1 & Hv & Hlt). simpl in Hs1.
+        unfold known', known. apply andb_true_iff. split; [apply andb_true_iff; split|].
+        * apply memN_In. exact Hs1.
+        * apply N.ltb_lt. exact Hlt.
+        * exact Hv.
+    - intros x k i Hx Hi. apply (Hpaid x k i Hx Hi).
+  Qed.
+
+End Branch.
